@@ -6,6 +6,7 @@ Import ListNotations.
 Section C.
 Variable nt : natives.
 Variable code : list instr.
+Variable tco : bool.
 
 Notation steps := (steps nt code).
 Notation G2 := (G2 nt code).
@@ -14,12 +15,15 @@ Notation TendL := (Gen.Tend nt code).
 Notation at_ := (at_ code).
 Notation code_at := (code_at code).
 Variable fu : nat.
-Notation Tend := (Gen.Tend nt code fu).
+Notation Tend := (Gen.Tend nt code (lbf tco fu)).
 (* the statement for every smaller fuel (the outer induction of the theorem) *)
-Hypothesis IHfu : forall m, m < fu -> forall q, Lemmas.Impl nt code m q.
-Notation Impl := (Impl nt code fu).
+Hypothesis IHfu : forall m, m < fu -> forall q, Lemmas.Impl nt code tco m q.
+Hypothesis IHfuT : forall m, m < fu -> forall q, Lemmas.ImplT nt code tco m q.
+Notation comp q ce := (compg tco q ce None).
+Notation Impl := (Impl nt code tco fu).
+Notation ImplT := (ImplT nt code tco fu).
 Notation den := (den1 nt (call_of nt fu)).
-Notation envOK := (Lemmas.envOK code).
+Notation envOK := (Lemmas.envOK code tco).
 
 Ltac one lem := eapply steps_step; [eapply lem; eauto|].
 Ltac uncons H A := let H' := fresh "Hat" in destruct (code_at_cons _ _ _ _ H) as [A H']; clear H; rename H' into H.
@@ -247,7 +251,7 @@ Proof.
     intros x1 y k h k' h' Hp Kq Hk. exact (S2' K x1 y k h k' h' HK0 Hp Kq Hk). }
   assert (JfK : forall g0 a b m x0 m' x0', Jf g0 a m x0 -> keepK0 c a b -> cle m x0 m' x0' -> Jf g0 b m' x0').
   { intros g0 p q m x0 m' x0' [Hp Hg] C Hm. split; [eapply HJwK; eauto|eapply HJgfK; eauto]. }
-  refine (G_fold nt code fu c1 c X J Jf fb ownb0 ceb eq_refl eq_refl eq_refl eq_refl eq_refl eq_refl eq_refl H4
+  refine (G_fold nt code (lbf tco fu) c1 c X J Jf fb ownb0 ceb eq_refl eq_refl eq_refl eq_refl eq_refl eq_refl eq_refl H4
             _ _ _ _ _ _ Hlb _ _ JJf _ _ ws1 g s fin1 os x g' HA HJ Ht Ef).
   - simpl; intros; lia.
   - simpl. intros i Hi. apply Hob in Hi. lia.
@@ -325,7 +329,7 @@ Proof.
 Qed.
 
 (* an Impl used as (part of) a body, in an arbitrary context whose own set contains its range *)
-Lemma impl_body : forall m q, Lemmas.Impl nt code m q -> forall sc cur base, frameOK sc cur base ->
+Lemma impl_body : forall m q, Lemmas.Impl nt code tco m q -> forall sc cur base, frameOK sc cur base ->
   forall ceq pcq nvq sn cq nvq' sn', comp q ceq cur pcq nvq sn = Some (cq, nvq', sn') -> code_at pcq cq ->
   forall cx rhoq v vs n o g (P : list sv -> nat -> gx -> Prop),
     g_sc cx = sc -> g_pc cx = pcq + length cq -> ce_lbls (g_ce cx) = ce_lbls ceq -> g_off cx = o ->
@@ -337,7 +341,7 @@ Lemma impl_body : forall m q, Lemmas.Impl nt code m q -> forall sc cur base, fra
     (forall a b m x m' x', P a m x -> chg (fun i => base + nvq <= i < base + nvq' \/ o <= i) a b -> cle m x m' x' -> P b m' x') ->
     (forall a b m x m' x', P a m x -> keepK0 cx a b -> cle m x m' x' -> P b m' x') ->
     P vs n g ->
-    G cx (fst (den1 nt (call_of nt m) q rhoq v)) (TendL m cx (snd (den1 nt (call_of nt m) q rhoq v)) P) (N sc pcq (SV v :: g_st cx) (g_base cx) vs n o g).
+    G cx (fst (den1 nt (call_of nt m) q rhoq v)) (TendL (lbf tco m) cx (snd (den1 nt (call_of nt m) q rhoq v)) P) (N sc pcq (SV v :: g_st cx) (g_base cx) vs n o g).
 Proof.
   intros m q IH sc cur base Hfr ceq pcq nvq sn cq nvq' sn' Ec Hat cx rhoq v vs n o g P Hsc Hpc Hlb Hoff Hown Hk1 Hk2 Hk0 HE Hn Hko Hoo Hl Hct HP1 HP2 HP. pose proof (frameOK_cur _ _ _ Hfr) as Hcur.
   pose proof (IH sc cur base Hfr ceq pcq nvq sn cq nvq' sn' Ec Hat rhoq v (g_st cx) (g_base cx) vs n (g_n0 cx) o (g_koff cx) g
@@ -679,21 +683,21 @@ Proof.
     eapply G_exit; [|exact HA]. intros w f vs' n' o' g'. one st_expend. apply steps_refl.
 Qed.
 
-Lemma comp_if_inv : forall c a b ce cur pc nv sn cq nv' sn', comp (QIf c a b) ce cur pc nv sn = Some (cq, nv', sn') ->
+Lemma comp_if_inv : forall c a b ce tp cur pc nv sn cq nv' sn', compg tco (QIf c a b) ce tp cur pc nv sn = Some (cq, nv', sn') ->
   exists cc n1 s1 ca n2 s2 cb,
     let pcc := pc + length (if_pre cc) in
     let e := pcc + 1 + length ca + 1 in
-    comp c ce cur (pc + 2) nv sn = Some (cc, n1, s1) /\ comp a ce cur (S pcc) n1 s1 = Some (ca, n2, s2) /\
-    comp b ce cur e n2 s2 = Some (cb, nv', sn') /\
+    comp c ce cur (pc + 2) nv sn = Some (cc, n1, s1) /\ compg tco a ce tp cur (S pcc) n1 s1 = Some (ca, n2, s2) /\
+    compg tco b ce tp cur e n2 s2 = Some (cb, nv', sn') /\
     ((exists x y, ca = [Iconst x] /\ cb = [Iconst y] /\
         cq = Inop :: tl (if_pre cc) ++ [Ijumpifnot e; Ipush x; Ijump (e + 1); Ipush y]) \/
      cq = if_pre cc ++ Ijumpifnot e :: ca ++ Ijump (e + length cb) :: cb).
 Proof.
-  intros c a b ce cur pc nv sn cq nv' sn' Hc. simpl in Hc.
+  intros c a b ce tp cur pc nv sn cq nv' sn' Hc. simpl in Hc.
   destruct (comp c ce cur (pc + 2) nv sn) as [[[cc n1] s1]|] eqn:Ec; [|discriminate].
   change (match cc with [] => [Idup] | _ :: _ => Idup :: Iexpbegin :: cc ++ [Iexpend] end) with (if_pre cc) in Hc.
-  destruct (comp a ce cur (S (pc + length (if_pre cc))) n1 s1) as [[[ca n2] s2]|] eqn:Ea; [|discriminate].
-  destruct (comp b ce cur (pc + length (if_pre cc) + 1 + length ca + 1) n2 s2) as [[[cb n3] s3]|] eqn:Eb; [|discriminate].
+  destruct (compg tco a ce tp cur (S (pc + length (if_pre cc))) n1 s1) as [[[ca n2] s2]|] eqn:Ea; [|discriminate].
+  destruct (compg tco b ce tp cur (pc + length (if_pre cc) + 1 + length ca + 1) n2 s2) as [[[cb n3] s3]|] eqn:Eb; [|discriminate].
   exists cc, n1, s1, ca, n2, s2, cb. cbv zeta.
   destruct (is_const1 ca) as [x|] eqn:E1; [destruct (is_const1 cb) as [y|] eqn:E2|]; inversion Hc; subst; clear Hc;
     (split; [reflexivity|]); (split; [exact Ea|]); (split; [exact Eb|]); auto.
@@ -706,7 +710,7 @@ Proof. destruct cc; reflexivity. Qed.
 Lemma impl_if : forall qc qa qb, Impl qc -> Impl qa -> Impl qb -> Impl (QIf qc qa qb).
 Proof.
   intros qc qa qb IHc IHa IHb. impl_intro.
-  destruct (comp_if_inv _ _ _ _ _ _ _ _ _ _ _ Hc) as (cc & n1 & s1 & ca & n2 & s2 & cb & Ec & Ea & Eb & Hcq). cbv zeta in *. clear Hc.
+  destruct (comp_if_inv _ _ _ _ _ _ _ _ _ _ _ _ Hc) as (cc & n1 & s1 & ca & n2 & s2 & cb & Ec & Ea & Eb & Hcq). cbv zeta in *. clear Hc.
   set (pcc := pc + length (if_pre cc)) in *. set (e := pcc + 1 + length ca + 1) in *.
   destruct (comp_mono _ _ _ _ _ _ _ _ _ Ec) as [M1 _]. destruct (comp_mono _ _ _ _ _ _ _ _ _ Ea) as [M2 _].
   destruct (comp_mono _ _ _ _ _ _ _ _ _ Eb) as [M3 _].
@@ -801,16 +805,16 @@ Definition bind_pre (cs : list instr) (x : var) : list instr :=
   | _ => Idup :: Iexpbegin :: cs ++ [Istore x; Iexpend]
   end.
 
-Lemma comp_bind_inv : forall qs x qb ce cur pc nv sn cq nv' sn', comp (QBind qs x qb) ce cur pc nv sn = Some (cq, nv', sn') ->
+Lemma comp_bind_inv : forall qs x qb ce tp cur pc nv sn cq nv' sn', compg tco (QBind qs x qb) ce tp cur pc nv sn = Some (cq, nv', sn') ->
   exists cs n1 s1 cb, comp qs ce cur (pc + 2) nv sn = Some (cs, n1, s1) /\
-    comp qb (add_var ce x (cur, n1)) cur (pc + length (bind_pre cs (cur, n1))) (S n1) s1 = Some (cb, nv', sn') /\
+    compg tco qb (add_var ce x (cur, n1)) tp cur (pc + length (bind_pre cs (cur, n1))) (S n1) s1 = Some (cb, nv', sn') /\
     cq = bind_pre cs (cur, n1) ++ cb.
 Proof.
-  intros qs x qb ce cur pc nv sn cq nv' sn' Hc. simpl in Hc.
+  intros qs x qb ce tp cur pc nv sn cq nv' sn' Hc. simpl in Hc.
   destruct (comp qs ce cur (pc + 2) nv sn) as [[[cs n1] s1]|] eqn:Es; [|discriminate].
   change (match cs with [] => [Idup; Inop; Istore (cur, n1)] | _ :: _ => Idup :: Iexpbegin :: cs ++ [Istore (cur, n1); Iexpend] end)
     with (bind_pre cs (cur, n1)) in Hc.
-  destruct (comp qb (add_var ce x (cur, n1)) cur (pc + length (bind_pre cs (cur, n1))) (S n1) s1) as [[[cb n2] s2]|] eqn:Eb; [|discriminate].
+  destruct (compg tco qb (add_var ce x (cur, n1)) tp cur (pc + length (bind_pre cs (cur, n1))) (S n1) s1) as [[[cb n2] s2]|] eqn:Eb; [|discriminate].
   inversion Hc; subst. eauto 8.
 Qed.
 
@@ -844,7 +848,7 @@ Qed.
 Lemma impl_bind : forall qs x qb, Impl qs -> Impl qb -> Impl (QBind qs x qb).
 Proof.
   intros qs x qb IHs IHb. impl_intro.
-  destruct (comp_bind_inv _ _ _ _ _ _ _ _ _ _ _ Hc) as (cs & n1 & s1 & cb & Es & Eb & ->). clear Hc.
+  destruct (comp_bind_inv _ _ _ _ _ _ _ _ _ _ _ _ Hc) as (cs & n1 & s1 & cb & Es & Eb & ->). clear Hc.
   destruct (comp_mono _ _ _ _ _ _ _ _ _ Es) as [M1 _]. destruct (comp_mono _ _ _ _ _ _ _ _ _ Eb) as [M2 _].
   std_facts. pose proof (conj S1 S2) as HS. destruct (stable_sub _ _ _ _ _ _ _ _ _ _ _ _ _ _ HS) as [S1' S2'].
   assert (HJ0 : Jstd sc ce rho n0 (base + nv) o P vs n g) by (split; auto).
@@ -1357,7 +1361,7 @@ Proof.
   - intros g0 p m y [(E & _) _]. eapply envOK_lblOK; eauto.
 Qed.
 
-Definition fold_gen := fold_gen_lb fu.
+Definition fold_gen := fold_gen_lb (lbf tco fu).
 
 Lemma Jstd_update_gen : forall sc ce rho n0 lim o (P : list sv -> nat -> gx -> Prop) vs n g k x vs',
   Jstd sc ce rho n0 lim o P vs n g -> update vs k x = Some vs' -> ~ kept sc ce k -> P vs' n g -> Jstd sc ce rho n0 lim o P vs' n g.
@@ -2015,7 +2019,7 @@ Proof.
   apply (G_leave sc Hne idf o rpc (ctr g) (outer_of sc idf idx) pr nvc A2 cx cec P Hsc Hpc Hoff Hown Hko Hct Henc lb lb' Hlb). exact HG0.
 Qed.
 
-Lemma G_body_in : forall m q, Lemmas.Impl nt code m q ->
+Lemma G_body_in : forall m q, Lemmas.Impl nt code tco m q ->
   forall idx ce pe idf cb nvc s0 s1, ce_lt ce idf = true ->
   comp q ce idf (S pe) 0 s0 = Some (cb, nvc, s1) -> code_at (S pe) cb ->
   forall sc' o, frameOK sc' idf o -> pushed idx idf sc' ->
@@ -2028,7 +2032,7 @@ Lemma G_body_in : forall m q, Lemmas.Impl nt code m q ->
     (forall a b m0 x m' x', P a m0 x -> chg (fun i => o <= i) a b -> cle m0 x m' x' -> P b m' x') ->
     (forall a b m0 x m' x', P a m0 x -> keepX K0 a b -> cle m0 x m' x' -> P b m' x') ->
     P vs' n g1 ->
-    G c' (fst (den1 nt (call_of nt m) q rho v)) (TendL m c' (snd (den1 nt (call_of nt m) q rho v)) P)
+    G c' (fst (den1 nt (call_of nt m) q rho v)) (TendL (lbf tco m) c' (snd (den1 nt (call_of nt m) q rho v)) P)
       (N sc' (S pe) (SV v :: st) fk vs' n (o + nvc) g1).
 Proof.
   intros m q IH idx ce pe idf cb nvc s0 s1 Hce Ec Hatc sc' o Hfr' Hps K K0 st fk n0 rho v P vs vs' n g1 lim HE Hlim Hag Hn Hl' HK2 HK0 K' c' HP1 HP2 HP.
@@ -2045,7 +2049,7 @@ Proof.
 Qed.
 
 (* entered by opcallrec from F1 *)
-Lemma G_call_rec : forall m q, Lemmas.Impl nt code m q -> forall scR, scR <> [] ->
+Lemma G_call_rec : forall m q, Lemmas.Impl nt code tco m q -> forall scR, scR <> [] ->
   forall idx ce pe idf cb nvc s0 s1, ce_lt ce idf = true -> at_ pe (Iscope idf nvc 0) ->
   comp q ce idf (S pe) 0 s0 = Some (cb, nvc, s1) -> code_at (S pe) (cb ++ [Iret]) ->
   forall cx rho v (P : list sv -> nat -> gx -> Prop) vs n o g rpc id1 oF stampF outerF tl,
@@ -2057,7 +2061,7 @@ Lemma G_call_rec : forall m q, Lemmas.Impl nt code m q -> forall scR, scR <> [] 
     (forall a b m0 x m' x', P a m0 x -> chg (fun i => oF <= i) a b -> cle m0 x m' x' -> P b m' x') ->
     (forall a b m0 x m' x', P a m0 x -> keepK0 cx a b -> cle m0 x m' x' -> P b m' x') ->
     P vs n g ->
-    forall lb', lb' <= S m ->
+    forall lb', lb' <= S (lbf tco m) ->
     G cx (fst (den1 nt (call_of nt m) q rho v)) (TendL lb' cx (snd (den1 nt (call_of nt m) q rho v)) P)
       (N (Frame id1 oF rpc stampF scR outerF :: tl) pe (SV v :: g_st cx) (g_base cx) vs n o g).
 Proof.
@@ -2072,7 +2076,7 @@ Proof.
   set (g1 := {| ctr := S (ctr g); creg := creg g |}).
   assert (Hps : pushed idx idf sc') by (exists o2, rpc, (ctr g), scR, scR; reflexivity).
   refine (G_enter_rec scR Hne pe idf nvc 0 pr A1 A2 cx ce P (SV v :: g_st cx) vs n o g rpc id1 oF stampF outerF tl idx
-           Hsc Hpc Hoff HoF Hown Hko Hlen Hct Hcr _ m lb' Hlb _ _ _).
+           Hsc Hpc Hoff HoF Hown Hko Hlen Hct Hcr _ (lbf tco m) lb' Hlb _ _ _).
   - intros vs0 fin e HEn. apply Henc. eapply encR_pushed; eauto.
   - fold o2 sc' vs' g1.
     assert (Hfr' : frameOK sc' idf o2) by (exists rpc, (ctr g), scR, (outer_of scR idf idx), scR; reflexivity).
@@ -2085,7 +2089,7 @@ Proof.
 Qed.
 
 (* entered by an ordinary call (the [g_off cx <= o] form of G_call) *)
-Lemma G_call_le : forall m q, Lemmas.Impl nt code m q -> forall sc cur base, frameOK sc cur base ->
+Lemma G_call_le : forall m q, Lemmas.Impl nt code tco m q -> forall sc cur base, frameOK sc cur base ->
   forall idx ce pe idf cb nvc s0 s1, ce_lt ce idf = true -> at_ pe (Iscope idf nvc 0) ->
   comp q ce idf (S pe) 0 s0 = Some (cb, nvc, s1) -> code_at (S pe) (cb ++ [Iret]) ->
   forall cx rho v (P : list sv -> nat -> gx -> Prop) vs n o g rpc,
@@ -2097,7 +2101,7 @@ Lemma G_call_le : forall m q, Lemmas.Impl nt code m q -> forall sc cur base, fra
     (forall a b m0 x m' x', P a m0 x -> chg (fun i => o <= i) a b -> cle m0 x m' x' -> P b m' x') ->
     (forall a b m0 x m' x', P a m0 x -> keepK0 cx a b -> cle m0 x m' x' -> P b m' x') ->
     P vs n g ->
-    forall lb', lb' <= S m ->
+    forall lb', lb' <= S (lbf tco m) ->
     G cx (fst (den1 nt (call_of nt m) q rho v)) (TendL lb' cx (snd (den1 nt (call_of nt m) q rho v)) P)
       (N sc pe (SV v :: g_st cx) (g_base cx) vs n o g).
 Proof.
@@ -2108,7 +2112,7 @@ Proof.
   set (vs' := grow vs (o + nvc)).
   set (g1 := {| ctr := S (ctr g); creg := creg g |}).
   assert (Hps : pushed idx idf sc') by (exists o, rpc, (ctr g), sc, sc; reflexivity).
-  refine (G_enter_le sc cur base Hfr idx pe idf nvc 0 pr A1 A2 cx ce P (SV v :: g_st cx) vs n o g rpc Hsc Hpc Hoff Hown Hko Hlen Hct Hcr _ m lb' Hlb _ _ _).
+  refine (G_enter_le sc cur base Hfr idx pe idf nvc 0 pr A1 A2 cx ce P (SV v :: g_st cx) vs n o g rpc Hsc Hpc Hoff Hown Hko Hlen Hct Hcr _ (lbf tco m) lb' Hlb _ _ _).
   - intros vs0 fin e HEn. apply Henc. eapply encR_pushed; eauto.
   - fold sc' vs' g1.
     assert (Hfr' : frameOK sc' idf o) by (exists rpc, (ctr g), sc, (outer_of sc idf idx), sc; reflexivity).
@@ -2119,7 +2123,7 @@ Proof.
     + eapply HP1; [exact HP| |unfold g1; cl]. split; [apply grow_len_le|]. intros i Hi. symmetry. apply grow_nth. lia.
 Qed.
 
-Lemma G_call : forall m q, Lemmas.Impl nt code m q -> forall sc cur base, frameOK sc cur base ->
+Lemma G_call : forall m q, Lemmas.Impl nt code tco m q -> forall sc cur base, frameOK sc cur base ->
   forall idx ce pe idf cb nvc s0 s1, ce_lt ce idf = true -> at_ pe (Iscope idf nvc 0) ->
   comp q ce idf (S pe) 0 s0 = Some (cb, nvc, s1) -> code_at (S pe) (cb ++ [Iret]) ->
   forall cx rho v (P : list sv -> nat -> gx -> Prop) vs n o g rpc,
@@ -2131,7 +2135,7 @@ Lemma G_call : forall m q, Lemmas.Impl nt code m q -> forall sc cur base, frameO
     (forall a b m0 x m' x', P a m0 x -> chg (fun i => o <= i) a b -> cle m0 x m' x' -> P b m' x') ->
     (forall a b m0 x m' x', P a m0 x -> keepK0 cx a b -> cle m0 x m' x' -> P b m' x') ->
     P vs n g ->
-    forall lb', lb' <= S m ->
+    forall lb', lb' <= S (lbf tco m) ->
     G cx (fst (den1 nt (call_of nt m) q rho v)) (TendL lb' cx (snd (den1 nt (call_of nt m) q rho v)) P)
       (N sc pe (SV v :: g_st cx) (g_base cx) vs n o g).
 Proof.
@@ -2143,7 +2147,7 @@ Qed.
 (* local soundness of the rewrite: in the frame F1 (an activation of the function whose opscope is at pe, body q), at
    a call of that function whose continuation is (through silent steps) F1's opret, the original `opcall pe` and the
    rewritten `opcallrec pe` both give F1's caller the generator of the body *)
-Lemma tailcall_local_sound : forall m q, Lemmas.Impl nt code m q -> forall scR, scR <> [] ->
+Lemma tailcall_local_sound : forall m q, Lemmas.Impl nt code tco m q -> forall scR, scR <> [] ->
   forall ce pe idf cb nvc s0 s1, ce_lt ce idf = true -> at_ pe (Iscope idf nvc 0) ->
   comp q ce idf (S pe) 0 s0 = Some (cb, nvc, s1) -> code_at (S pe) (cb ++ [Iret]) ->
   forall cx rho v (P : list sv -> nat -> gx -> Prop) vs n o g rpc oF stampF outerF pc,
@@ -2156,7 +2160,7 @@ Lemma tailcall_local_sound : forall m q, Lemmas.Impl nt code m q -> forall scR, 
     (forall a b m0 x m' x', P a m0 x -> chg (fun i => oF <= i) a b -> cle m0 x m' x' -> P b m' x') ->
     (forall a b m0 x m' x', P a m0 x -> keepK0 cx a b -> cle m0 x m' x' -> P b m' x') ->
     P vs n g ->
-    forall lb', lb' <= S m ->
+    forall lb', lb' <= S (lbf tco m) ->
     let r := den1 nt (call_of nt m) q rho v in
     let s := N sc1 pc (SV v :: g_st cx) (g_base cx) vs n o g in
     (* the rewritten instruction *)
@@ -2333,14 +2337,14 @@ Qed.
 (* the environment of the parameters: closures of the arguments, whose own environment is the caller's *)
 Lemma envOKl_params : forall G sc' vs lim sc cur base cel rho lim_a idf o,
   top_frame sc cur base -> frameOK sc' idf o -> lim_a <= lim ->
-  envOKl code (ce_ghost {| ce_env := cel; ce_lbls := []; ce_ghost := G |}) sc vs lim_a cel rho ->
+  envOKl code tco (ce_ghost {| ce_env := cel; ce_lbls := []; ce_ghost := G |}) sc vs lim_a cel rho ->
   (forall i, kept sc {| ce_env := cel; ce_lbls := []; ce_ghost := G |} i -> G i /\ i < lim_a) ->
   forall ps args pcs i cr rr, length ps = length args ->
-  Forall2 (fun a q => funOK code (S q) [] a cel) args pcs ->
+  Forall2 (fun a q => funOK code tco (S q) [] a cel None) args pcs ->
   (forall k q, nth_error pcs k = Some q -> nth_error vs (o + S (i + k)) = Some (SPc (S q) sc)) ->
   o + S (i + length ps) <= lim ->
-  envOKl code G sc' vs lim cr rr ->
-  envOKl code G sc' vs lim (pf_env idf ps i ++ cr) (pf_binds ps args rho ++ rr).
+  envOKl code tco G sc' vs lim cr rr ->
+  envOKl code tco G sc' vs lim (pf_env idf ps i ++ cr) (pf_binds ps args rho ++ rr).
 Proof.
   intros G sc' vs lim sc cur base cel rho lim_a idf o Htop Hfr' Hla HEa Hka.
   pose proof (frameOK_cur _ _ _ Hfr') as Hcur'.
@@ -2351,7 +2355,7 @@ Proof.
     apply (IH args l' (S i)); auto.
     + intros k q Hq. replace (S i + k) with (i + S k) by lia. apply Hnth. exact Hq.
     + lia.
-    + apply (EO_par code G sc' vs lim g (idf, S i) a rho cr rr (o + S i) (S y) sc cel cur base lim_a G); auto.
+    + apply (EO_par code tco G sc' vs lim g (idf, S i) a rho cr rr (o + S i) (S y) sc cel cur base lim_a G); auto.
       * lia.
       * replace (o + S i) with (o + S (i + 0)) by lia. apply Hnth. reflexivity.
   - (* a value parameter binds no closure name *)
@@ -2362,13 +2366,13 @@ Proof.
 Qed.
 
 Lemma envOKl_ghost : forall (G G' : nat -> Prop) sc vs lim cel rho, (forall i, G i -> G' i) ->
-  envOKl code G sc vs lim cel rho -> envOKl code G' sc vs lim cel rho.
+  envOKl code tco G sc vs lim cel rho -> envOKl code tco G' sc vs lim cel rho.
 Proof.
   intros G G' sc vs lim cel rho HG H. induction H.
   - constructor.
   - constructor; auto.
   - constructor; auto.
-  - apply (EO_par code G' sc vs lim g y a rho_a cr rr addr p idx cel_a cur_a base_a lim_a Ga); auto.
+  - apply (EO_par code tco G' sc vs lim g y a rho_a cr rr addr p idx cel_a cur_a base_a lim_a Ga); auto.
     intros i Hi. destruct (H6 i Hi). auto.
 Qed.
 
@@ -2460,9 +2464,9 @@ Lemma pv_loop :
   forall ce rho limc v n0 sc' idf o, frameOK sc' idf o -> pushed sc idf sc' -> limc <= o ->
   let Gc := kept sc (fun_env ce) in
   (forall i, Gc i -> i < limc) ->
-  forall args pcs nps, Forall2 (fun a q => funOK code (S q) [] a (ce_env ce)) args pcs -> Forall (fun a => Impl a) args -> length args = nps ->
-  forall (z : bool) m body ceF pcb pslots cb nvb s0 s1 st lbm, (z = false -> Lemmas.Impl nt code m body) ->
-    lbm <= fu -> (if z then lbm = 0 else lbm <= m) ->
+  forall args pcs nps, Forall2 (fun a q => funOK code tco (S q) [] a (ce_env ce) None) args pcs -> Forall (fun a => Impl a) args -> length args = nps ->
+  forall (z : bool) m body ceF pcb pslots cb nvb s0 s1 st lbm, (z = false -> Lemmas.Impl nt code tco m body) ->
+    lbm <= lbf tco fu -> (if z then lbm = 0 else lbm <= lbf tco m) ->
     comp body ceF idf pcb pslots s0 = Some (cb, nvb, s1) -> code_at pcb cb -> at_ (pcb + length cb) Iret ->
     ce_lbls ceF = [] -> ce_ghost ceF = Gc ->
   let evi := fun i => match nth_error args i with Some a => den a rho v | None => ([], None) end in
@@ -2476,7 +2480,7 @@ Lemma pv_loop :
     envOK sc' ceJ rhoJ vs n0 (o + S nps + j) ->
     nth_error vs (o + 0) = Some (SV v) ->
     (forall i q, nth_error pcs i = Some q -> nth_error vs (o + S i) = Some (SPc (S q) sc)) ->
-    envOKl code Gc sc vs limc (ce_env ce) rho ->
+    envOKl code tco Gc sc vs limc (ce_env ce) rho ->
     g_sc cx = sc' -> g_pc cx = pcb + length cb -> g_st cx = st -> g_off cx = oo -> g_ce cx = ceJ -> g_n0 cx = n0 ->
     o + nvb <= g_koff cx -> g_koff cx <= oo -> oo <= length vs -> n0 <= n -> g_ctr cx <= ctr g ->
     (forall i, o + S nps + j <= i < o + nvb \/ oo <= i -> g_own cx i) -> (forall i, g_own cx i -> o + S nps + j <= i) ->
@@ -2497,7 +2501,7 @@ Proof.
     specialize (IHb eq_refl).
     eapply G_pre; [eapply steps_step; [eapply st_load; [exact A0|apply Hcur'|exact Hv0]|apply steps_refl]|apply chg_refl|cl|].
     replace (S pcx) with pcb by lia. rewrite <- Hst.
-    eapply G_impl; [intros s5 HT5; exact (Tend_lb_mono m lbm _ _ _ _ Hlb2 HT5)|].
+    eapply G_impl; [intros s5 HT5; exact (Tend_lb_mono (lbf tco m) lbm _ _ _ _ Hlb2 HT5)|].
     apply (impl_body m body IHb sc' idf o Hfr' ceF pcb pslots s0 cb nvb s1 Hcomp Hatcb cx rhoJ v vs n oo g PT); auto; try lia.
     + rewrite Hce, HlJ, HlF. reflexivity.
     + intros i Hi. apply Hown. lia.
@@ -2515,7 +2519,7 @@ Proof.
     assert (Hlp : length pcs = nps) by (rewrite <- Hnps; clear - HFa; induction HFa; simpl; auto).
     destruct (nth_error args i) as [a|] eqn:Ea; [|apply nth_error_None in Ea; lia].
     destruct (nth_error pcs i) as [q|] eqn:Eq; [|apply nth_error_None in Eq; lia].
-    assert (Hfa : funOK code (S q) [] a (ce_env ce) /\ Impl a).
+    assert (Hfa : funOK code tco (S q) [] a (ce_env ce) None /\ Impl a).
     { clear - HFa IHargs Ea Eq. revert i pcs HFa Ea Eq. induction args as [|a0 args IHa]; intros [|i] pcs HFa Ea Eq; simpl in *; try discriminate;
         inversion HFa; subst; inversion IHargs; subst; simpl in Eq.
       - inversion Ea; inversion Eq; subst. auto.
@@ -2554,7 +2558,7 @@ Proof.
     set (fb := fun (_ : unit) w => (fst (f w), snd (f w), tt)).
     set (Jg := fun (_ : unit) (a0 : list sv) => nth_error a0 (o + 0) = Some (SV v) /\
                  (forall i0 q0, nth_error pcs i0 = Some q0 -> nth_error a0 (o + S i0) = Some (SPc (S q0) sc)) /\
-                 envOKl code Gc sc a0 limc (ce_env ce) rho).
+                 envOKl code tco Gc sc a0 limc (ce_env ce) rho).
     assert (HJgc : forall (O : nat -> Prop) a0 b, (forall i0, O i0 -> o + S nps <= i0) -> Jg tt a0 -> chg O a0 b -> Jg tt b).
     { intros O a0 b HO (H1 & H2 & H3) [_ C]. split; [|split].
       - rewrite <- H1. symmetry. apply C. intro Hc. apply HO in Hc. lia.
@@ -2656,6 +2660,104 @@ Proof.
     destruct xe as [e|]; exact HG'.
 Qed.
 
+(* ---- tail positions (optimizeTailRec) ----
+   G_leaveT: a generator of the frame F1 = Frame idf oF rpc stamp scR outer (context c1, exit at F1's opret) seen from
+   F1's caller cx; unlike G_leave the caller's context may be one in which F1 is pinned by pending forks (then its
+   offset is the current one and it need not own F1's slots) *)
+Lemma G_leaveT : forall scR, scR <> [] -> forall idf oF rpc stamp outer pr, at_ pr Iret ->
+  forall cx c1 (P : list sv -> nat -> gx -> Prop),
+    g_sc cx = scR -> g_pc cx = S rpc ->
+    g_sc c1 = Frame idf oF rpc stamp scR outer :: scR -> g_pc c1 = pr -> g_st c1 = g_st cx -> g_base c1 = g_base cx -> g_n0 c1 = g_n0 cx ->
+    (forall i, g_own c1 i -> g_own cx i) ->
+    g_off cx <= g_off c1 -> oF <= g_off c1 -> (unpin (g_base cx) stamp = true -> g_off cx <= oF) ->
+    (forall o3 i, g_off c1 <= o3 -> g_keep c1 i \/ g_koff c1 <= i < o3 -> g_keep cx i \/ g_koff cx <= i < o3) ->
+    (forall i, g_keep0 c1 i -> g_keep0 cx i) ->
+    stamp < g_ctr c1 -> g_ctr cx <= g_ctr c1 ->
+    (forall vs0 fin e, encR (g_sc c1) (g_ce c1) vs0 fin e -> encR scR (g_ce cx) vs0 fin e) ->
+    forall lb lb', g_ctr cx + lb' <= g_ctr c1 + lb ->
+    forall ws fin s, G c1 ws (TendL lb c1 fin P) s -> G cx ws (TendL lb' cx fin P) s.
+Proof.
+  intros scR Hne idf oF rpc stamp outer pr A2 cx c1 P Hsc Hpc Hsc1 Hpc1 Hst1 Hb1 Hn01 Hoc Hoff HoF Hunp Hks Hk0 Hst Hcc Henc lb lb' Hlb.
+  assert (Tc : forall fin s, TendL lb c1 fin P s -> TendL lb' cx fin P s).
+  { intros fin s HT. destruct (Tend_inv _ _ _ _ _ _ _ HT) as [[-> HFu]|(e & vs4 & n4 & g4 & St4 & Ch4 & Le4 & HE4 & HP4)];
+      [apply Tend_fuel; eapply Tfuel_mono; [|exact HFu]; lia|]. apply Tend_of. exists e, vs4, n4, g4.
+    rewrite <- Hb1. split; [exact St4|]. split; [exact (chg_mono _ _ _ _ Hoc Ch4)|]. split; [exact Le4|]. split; [|exact HP4].
+    rewrite Hsc. apply Henc. exact HE4. }
+  induction ws as [|w ws IHws]; intros fin s HG.
+  - destruct HG as (s' & St & Ch & Le & HT). exists s'. split; [exact St|]. split; [exact (chg_mono _ _ _ _ Hoc Ch)|].
+    split; [exact Le|apply Tc; exact HT].
+  - simpl in HG. destruct HG as (fk' & vs3 & n3 & o3 & g3 & St & Ch & Le & [Ho Hfk] & R).
+    assert (Hfk' : Forall (fun f => g_ctr cx <= f_ctr f) fk').
+    { eapply Forall_impl; [|exact Hfk]. simpl. intros f Hf. lia. }
+    rewrite Hsc1, Hpc1, Hst1, Hb1 in St.
+    destruct fk' as [|f0 fk0].
+    + destruct R as [E R].
+      exists [], vs3, n3, (if unpin ([] ++ g_base cx) stamp then oF else o3), g3.
+      split. { eapply steps_trans; [exact St|]. eapply steps_step; [|apply steps_refl]. rewrite Hsc, Hpc. eapply st_ret; [exact A2|exact Hne]. }
+      split; [exact (chg_mono _ _ _ _ Hoc Ch)|]. split; [exact Le|].
+      split. { split; [|exact Hfk']. simpl app. destruct (unpin (g_base cx) stamp) eqn:Eu; [specialize (Hunp eq_refl)|]; lia. }
+      split; [exact E|]. intros vs2 n2 g2 Kp L2. apply Tc. rewrite <- Hb1. apply R; [|exact L2].
+      eapply keepX_mono; [|exact Kp]. exact Hk0.
+    + assert (Hnf : (f_ctr f0 <=? stamp) = false).
+      { apply Nat.leb_gt. inversion Hfk; subst. lia. }
+      exists (f0 :: fk0), vs3, n3, o3, g3.
+      split. { eapply steps_trans; [exact St|]. eapply steps_step; [|apply steps_refl]. rewrite Hsc, Hpc.
+               etransitivity; [eapply st_ret; [exact A2|exact Hne]|]. simpl. rewrite Hnf. reflexivity. }
+      split; [exact (chg_mono _ _ _ _ Hoc Ch)|]. split; [exact Le|].
+      split. { split; [|exact Hfk']. lia. }
+      intros vs2 n2 g2 Kp L2.
+      assert (Kp' : keepS c1 o3 vs3 vs2).
+      { eapply keepX_mono; [|exact Kp]. simpl. intros i Hi. apply Hks; [lia|exact Hi]. }
+      rewrite <- Hb1. destruct (R vs2 n2 g2 Kp' L2) as [R1 R2]. split; [apply IHws; exact R1|].
+      intros x Hx. rewrite <- Hn01 in Hx. destruct (R2 x Hx) as (vs4 & n4 & g4 & St4 & Ch4 & Le4). exists vs4, n4, g4.
+      split; [exact St4|]. split; [exact (chg_mono _ _ _ _ Hoc Ch4)|exact Le4].
+Qed.
+
+(* entering, by an ordinary call, a parameterless function whose body is compiled in tail mode *)
+Lemma G_callT : forall m body, Lemmas.ImplT nt code tco m body -> tco = true -> forall sc cur base, frameOK sc cur base ->
+  forall ceF pe idf cb nvb s0 s1, ce_lt ceF idf = true -> ce_lbls ceF = [] -> at_ pe (Iscope idf nvb 0) ->
+  compg tco body ceF (Some (pe, Some (Nat.eqb (nvars body) 0))) idf (S pe) 0 s0 = Some (cb, nvb, s1) -> code_at (S pe) (cb ++ [Iret]) ->
+  forall cx rho v (P : list sv -> nat -> gx -> Prop) vs n o g rpc,
+    g_sc cx = sc -> g_pc cx = S rpc -> g_off cx <= o ->
+    (forall i, o <= i -> g_own cx i) -> (forall i, kept sc ceF i -> g_keep cx i) -> (forall i, g_keep0 cx i -> g_keep cx i) ->
+    g_koff cx <= o -> envOK sc ceF rho vs (g_n0 cx) o -> g_n0 cx <= n -> o <= length vs -> g_ctr cx <= ctr g ->
+    creg g = (Some rpc, sc) -> (forall i, kept sc (g_ce cx) i -> i < o) ->
+    stable cx P -> P vs n g ->
+    G cx (fst (den1 nt (call_of nt m) body rho v)) (TendL (lbf tco m) cx (snd (den1 nt (call_of nt m) body rho v)) P)
+      (N sc pe (SV v :: g_st cx) (g_base cx) vs n o g).
+Proof.
+  intros m body IHT Htco sc cur base Hfr ceF pe idf cb nvb s0 s1 Hclt HlF A1 Ec Hat cx rho v P vs n o g rpc
+         Hsc Hpc Hoff Hown HK2 HK0 Hko HE Hn Hlen Hct Hcr Hklt [S1 S2] HP.
+  destruct (code_at_app _ _ _ _ Hat) as [Hatc Hat2]. uncons Hat2 A2.
+  assert (Hne : sc <> []) by (eapply frameOK_ne; eauto).
+  set (sc' := Frame idf o rpc (ctr g) sc (outer_of sc idf sc) :: sc).
+  set (vs' := grow vs (o + nvb)).
+  set (g1 := {| ctr := S (ctr g); creg := creg g |}).
+  assert (Hps : pushed sc idf sc') by (exists o, rpc, (ctr g), sc, sc; reflexivity).
+  eapply G_pre with (s1 := N sc' (S pe) (SV v :: g_st cx) (g_base cx) vs' n (o + nvb) g1).
+  { eapply steps_step; [eapply st_scope; [exact A1|exact Hcr]|]. apply steps_refl. }
+  { simpl. split; [apply grow_len_le|]. intros i Hi. symmetry. apply grow_nth.
+    destruct (Nat.lt_ge_cases i (length vs)) as [Hl|Hl]; [exact Hl|]. exfalso. apply Hi, Hown. lia. }
+  { unfold g1; cl. }
+  pose proof (comp_nvars _ _ _ _ _ _ _ _ _ _ _ Ec) as Hnv. simpl in Hnv.
+  assert (Hagree : forall a, a < o -> nth_error vs' a = nth_error vs a) by (intros a Ha; apply grow_nth; lia).
+  refine (IHT Htco sc Hne idf o rpc (ctr g) (outer_of sc idf sc) pe nvb (Nat.eqb (nvars body) 0) A1 _ ceF (S pe) 0 s0 cb nvb s1 Ec Hatc HlF (le_n _)
+            (S pe + length cb) A2 cx (fun _ _ _ _ _ _ => steps_refl _ _ _) rho v vs' n (o + nvb) g1 P Hsc Hpc Hklt _ Hn (le_n _) (grow_len _ _)
+            ltac:(unfold g1; simpl; lia) ltac:(unfold g1; simpl; lia) ltac:(lia) Hko _ _ _ _ HK0 (conj S1 S2) _).
+  - intros E. apply Nat.eqb_eq in E. lia.
+  - rewrite Nat.add_0_r. eapply envOK_pushed; eauto.
+  - intros i Hi. apply Hown. lia.
+  - intros _. split; [exact Hoff|exact Hown].
+  - intros x y i Hin Hi. right.
+    pose proof (ce_lt_var _ _ _ _ Hclt Hin) as Hlt. rewrite (index_of_pushed _ _ _ _ Hps) in Hi by lia.
+    assert (Hk : kept sc ceF i) by (left; exists x, y; split; [exact Hin|exact Hi]).
+    split; [apply HK2; exact Hk|exact (kept_lt _ _ _ _ _ _ _ HE Hk)].
+  - intros i Hi. assert (Hk : kept sc ceF i) by (right; right; exact Hi).
+    split; [apply HK2; exact Hk|exact (kept_lt _ _ _ _ _ _ _ HE Hk)].
+  - eapply S1; [exact HP| |unfold g1; cl]. split; [apply grow_len_le|]. intros i Hi. symmetry. apply grow_nth.
+    destruct (Nat.lt_ge_cases i (length vs)) as [Hl|Hl]; [exact Hl|]. exfalso. apply Hi, Hown. lia.
+Qed.
+
 (* a call: of a user-defined function (opcall pc, with the closures of the arguments pushed before), or of a filter
    parameter (load the closure; callpc).  The callee runs with one unit of fuel less *)
 Lemma impl_callf : forall f args, Forall (fun a => Impl a) args -> Impl (QCallF f args).
@@ -2672,7 +2774,7 @@ Proof.
     set (ceF := {| ce_env := param_env idf ps ++ cel'; ce_lbls := []; ce_ghost := Gc |}).
     set (pl := prelude idf ps) in *.
     set (pcb := p + 1 + length pl) in *.
-    assert (HcbF : comp body ceF idf pcb (param_slots ps) s0 = Some (cb, nvb, s1)) by apply Hcb.
+    assert (HcbF : compg tco body ceF (tl_body tco p ps body) idf pcb (param_slots ps) s0 = Some (cb, nvb, s1)) by apply Hcb.
     destruct (comp_mono _ _ _ _ _ _ _ _ _ HcbF) as [Mb _].
     assert (HatP : code_at (S p) (pl ++ cb ++ [Iret])).
     { intros i x Hi. replace (S p + i) with (p + 1 + i) by lia. apply Hcode. exact Hi. }
@@ -2688,9 +2790,31 @@ Proof.
       { (* no fuel: nothing is claimed *) cbn [call_of fst snd]. apply G_fuel. unfold c; simpl; lia. }
       cbn [call_of]. assert (Hm : m < fu) by lia.
       inversion Hc; subst cq nv' sn'. clear Hc. uncons Hat A1.
-      assert (Epcb : pcb = S p) by (unfold pcb, pl; simpl; lia). rewrite Epcb in *. simpl in HcbF.
+      assert (Epcb : pcb = S p) by (unfold pcb, pl; simpl; lia). rewrite Epcb in *. cbn [param_slots] in HcbF.
       eapply G_pre; [one st_callf; apply steps_refl|apply chg_refl|cl|].
       subst c.
+      destruct (Bool.bool_dec tco true) as [Etco|Etco].
+      { (* optimizeTailRec on: the body is compiled in tail mode and delivers to this call site by itself *)
+        assert (Etl : tl_body tco p [] body = Some (p, Some (Nat.eqb (nvars body) 0))) by (unfold tl_body; rewrite Etco; reflexivity).
+        rewrite Etl in HcbF.
+        assert (HEb : envOK sc ceF rho' vs n0 o).
+        { split; [|split].
+          - simpl. eapply envOKl_ghost; [|eapply envOKl_lim; [exact Hv'|lia]]. intros i Hi. right. right. exact Hi.
+          - simpl. intros l0 y0 Hy. discriminate.
+          - simpl. intros i Hi. apply HGlt in Hi. lia. }
+        assert (Hkb : forall i, kept sc ceF i -> kept sc ce i).
+        { intros i [(x & y & Hx & Hi)|[(l0 & y & Hx & Hi)|Hg]]; simpl in *; [|discriminate|apply Hkc; exact Hg].
+          left. exists x, y. split; [|exact Hi]. rewrite Epre. destruct Hx as [Hx|Hx]; [left|right]; apply suffix_In; exact Hx. }
+        eapply G_impl; [intros s5 HT5; refine (Tend_lb_mono (lbf tco m) _ _ _ _ _ _ HT5); rewrite Etco; simpl; lia|].
+        apply (G_callT m body (IHfuT m Hm body) Etco sc cur base Hfr ceF p idf cb nvb s0 s1 Hclt eq_refl Hscp HcbF Hat2
+                 (ctx_of sc (pc + length [Icallf p]) st fk (base + nv) (base + nv) o ko K K0 ce n0 (ctr g))
+                 rho' v P vs n o {| ctr := ctr g; creg := (Some pc, sc) |} pc); simpl; auto; try lia.
+        - intros i Hi. pose proof (kept_lt _ _ _ _ _ _ _ HE Hi). lia.
+        - split; [exact S1|exact S2].
+        - eapply S1; [exact HP|apply chg_refl|cl]. }
+      apply Bool.not_true_is_false in Etco.
+      assert (Etl : tl_body tco p [] body = None) by (unfold tl_body; rewrite Etco; reflexivity).
+      rewrite Etl in HcbF.
       assert (HEb : envOK sc ceF rho' vs n0 o).
       { split; [|split].
         - simpl. eapply envOKl_ghost; [|eapply envOKl_lim; [exact Hv'|lia]]. intros i Hi. right. right. exact Hi.
@@ -2701,23 +2825,25 @@ Proof.
         left. exists x, y. split; [|exact Hi]. rewrite Epre. destruct Hx as [Hx|Hx]; [left|right]; apply suffix_In; exact Hx. }
       apply (G_call m body (IHfu m Hm body) sc cur base Hfr sc ceF p idf cb nvb s0 s1 Hclt Hscp HcbF Hat2
                (ctx_of sc (pc + length [Icallf p]) st fk (base + nv) (base + nv) o ko K K0 ce n0 (ctr g))
-               rho' v P vs n o {| ctr := ctr g; creg := (Some pc, sc) |} pc); simpl; auto; try lia.
+               rho' v P vs n o {| ctr := ctr g; creg := (Some pc, sc) |} pc); simpl; auto; try lia; try apply lbf_S.
       * intros vs' fin e HEn. destruct fin as [[e0|l0|]|]; simpl in *; auto.
         destruct HEn as (x & k & id & Hk & _). discriminate.
       * intros a b m0 x m' x' Hp C Hm0. eapply S1; [exact Hp| |exact Hm0]. eapply chg_mono; [|exact C]. simpl. intros; lia.
       * eapply S1; [exact HP|apply chg_refl|cl].
     + (* arguments: store v; the closures; load v; opcall pc *)
       destruct ps as [|p0 ps']; [discriminate Hlps|].
+      assert (Etl : tl_body tco p (p0 :: ps') body = None) by (unfold tl_body; simpl; rewrite andb_false_r; reflexivity).
+      rewrite Etl in HcbF.
       (* the fuel of the call: none (z) or m for the body *)
-      assert (Hz : exists z m, (z = false -> Lemmas.Impl nt code m body) /\ fu = (if z then 0 else S m) /\
+      assert (Hz : exists z m, (z = false -> Lemmas.Impl nt code tco m body) /\ fu = (if z then 0 else S m) /\
                  forall env, call_of nt fu body env v = if z then ([], Some XFuel) else den1 nt (call_of nt m) body env v).
       { case_eq fu; [intros Efu; exists true, 0; split; [discriminate|split; reflexivity]|].
         intros m Efu. exists false, m. split; [intros _; apply IHfu; lia|split; reflexivity]. }
       destruct Hz as (z & m & IHb & Hfz & Hkz).
-      set (lbm := if z then 0 else m).
-      assert (HlbS : fu <= S lbm) by (rewrite Hfz; unfold lbm; destruct z; lia).
-      assert (Hlbfu : lbm <= fu) by (rewrite Hfz; unfold lbm; destruct z; lia).
-      assert (Hlbz : if z then lbm = 0 else lbm <= m) by (unfold lbm; destruct z; [reflexivity|lia]).
+      set (lbm := if z then 0 else lbf tco m).
+      assert (HlbS : lbf tco fu <= S lbm) by (rewrite Hfz; unfold lbm; destruct z; [simpl; lia|apply lbf_S]).
+      assert (Hlbfu : lbm <= lbf tco fu) by (rewrite Hfz; unfold lbm; destruct z; [lia|destruct tco, m; simpl; lia]).
+      assert (Hlbz : if z then lbm = 0 else lbm <= lbf tco m) by (unfold lbm; destruct z; [reflexivity|lia]).
       set (nps := S (length ps')).
       assert (Hnps : length (a0 :: args') = nps) by (unfold nps; simpl in *; lia).
       set (evi := fun i => match nth_error (a0 :: args') i with Some a => den a rho v | None => ([], None) end).
@@ -2736,7 +2862,7 @@ Proof.
       assert (HCm : forall a s p0 cb0 nvc s3, comp a (fun_env ce) s (p0 + 2) 0 (S s) = Some (cb0, nvc, s3) -> s <= s3).
       { intros a s p1 cb0 nvc s3 Hca. apply comp_mono in Hca. lia. }
       destruct (args_run _ HCm _ _ _ _ _ _ Eas Hatas) as (pcs & Hpl & Epe & Hsn2 & Hst & HFa).
-      assert (HFa' : Forall2 (fun a q => funOK code (S q) [] a (ce_env ce)) (a0 :: args') pcs).
+      assert (HFa' : Forall2 (fun a q => funOK code tco (S q) [] a (ce_env ce) None) (a0 :: args') pcs).
       { clear - HFa Hce. induction HFa as [|a q la lq (id & cb0 & nvc & s3 & Hid & Hq & Hca & Hatq) HFr IHF]; constructor; [|exact IHF].
         exists id, nvc, cb0, (S id), s3. cbn [prelude param_env pv_env pf_env pv_params param_slots length app]. split; [exact Hq|]. split; [|split].
         - intros G. rewrite <- Hca. replace (S q + 1 + 0) with (q + 2) by lia. apply comp_ghost; reflexivity.
@@ -2792,7 +2918,7 @@ Proof.
         exfalso. apply Hi. lia. }
       (* the value parameters, then the body, in the environment of the parameters *)
       set (ceJ := {| ce_env := pf_env idf (p0 :: ps') 0 ++ cel'; ce_lbls := []; ce_ghost := Gc |}).
-      assert (HEcB : envOKl code Gc sc vsB (base + nv) (ce_env ce) rho).
+      assert (HEcB : envOKl code tco Gc sc vsB (base + nv) (ce_env ce) rho).
       { eapply envOKl_same; [eapply envOKl_ghost; [|exact Hv]|..].
         * intros i Hi. right. right. exact Hi.
         * intros x y k Hin Hk. symmetry. apply Hagree0. exact (envOKl_kept_lt _ _ _ _ _ _ x y k Hv Hin Hk).
@@ -2879,7 +3005,7 @@ Proof.
     subst c.
     apply (G_call m a (IHfu m Hm a) sc cur base Hfr idx cea pa ida cba nva s0a s1a Hclta Hsca Hcba' Hata
              (ctx_of sc (pc + length [Iload y; Icallpc]) st fk (base + nv) (base + nv) o ko K K0 ce n0 (ctr g))
-             rho_a v P vs n o {| ctr := ctr g; creg := (Some (S pc), idx) |} (S pc)); simpl; auto; try lia.
+             rho_a v P vs n o {| ctr := ctr g; creg := (Some (S pc), idx) |} (S pc)); simpl; auto; try lia; try apply lbf_S.
     + intros vs' fin e HEn. destruct fin as [[e0|l0|]|]; simpl in *; auto.
       destruct HEn as (x & k & id & Hk & _). discriminate.
     + intros i Hi. apply HK2. right. right. apply Hka. exact Hi.
@@ -3082,22 +3208,673 @@ Proof.
   - split; [exact HJ1|exact UN].
 Qed.
 
-Theorem impl_all : forall q, Impl q.
+(* ---- queries in tail position ---- *)
+
+(* the slots visible from a query compiled in F1: F1's own variables below nv, or slots the caller keeps *)
+Lemma keptT : forall scR idf oF rpc stampF outerF ce rho vs n0 nv (K : nat -> Prop),
+  let sc1 := Frame idf oF rpc stampF scR outerF :: scR in
+  ce_lbls ce = [] -> envOK sc1 ce rho vs n0 (oF + nv) ->
+  (forall x y i, In (x, CV y) (ce_env ce) \/ In (x, CP y) (ce_env ce) -> index_of sc1 y = Some i -> fst y = idf \/ K i) ->
+  (forall i, ce_ghost ce i -> K i) ->
+  forall i, kept sc1 ce i -> K i \/ oF <= i < oF + nv.
+Proof.
+  intros scR idf oF rpc stampF outerF ce rho vs n0 nv K sc1 Hlb HE HK Hgh i Hk.
+  pose proof (kept_lt _ _ _ _ _ _ _ HE Hk) as Hlt.
+  destruct Hk as [(x & y & Hx & Hi)|[(l0 & y & Hx & Hi)|Hg]].
+  - destruct (HK x y i Hx Hi) as [Ey|Hki]; [|left; exact Hki]. right. destruct y as [a k]. simpl in Ey. subst a.
+    unfold sc1 in Hi. simpl in Hi. rewrite Nat.eqb_refl in Hi. inversion Hi; subst. lia.
+  - rewrite Hlb in Hx. discriminate.
+  - left. apply Hgh. exact Hg.
+Qed.
+
+(* a query whose code is the one of the ordinary mode: run it towards F1's opret, then leave F1 *)
+Lemma implT_core : forall q, Impl q ->
+  forall scR, scR <> [] -> forall idf oF rpc stampF outerF nvF,
+  let sc1 := Frame idf oF rpc stampF scR outerF :: scR in
+  forall ce pc nv sn cq nv' sn', comp q ce idf pc nv sn = Some (cq, nv', sn') -> code_at pc cq ->
+  ce_lbls ce = [] -> nv' <= nvF ->
+  forall pr, at_ pr Iret ->
+  forall cx, (forall w f vs n o g, steps (N sc1 (pc + length cq) (SV w :: g_st cx) f vs n o g) (N sc1 pr (SV w :: g_st cx) f vs n o g)) ->
+  forall rho v vs n o g (P : list sv -> nat -> gx -> Prop),
+    g_sc cx = scR -> g_pc cx = S rpc ->
+    envOK sc1 ce rho vs (g_n0 cx) (oF + nv) -> g_n0 cx <= n -> oF + nvF <= o -> o <= length vs ->
+    g_ctr cx <= ctr g -> stampF < ctr g ->
+    g_off cx <= o -> g_koff cx <= oF ->
+    (forall i, oF + nv <= i < oF + nvF \/ o <= i -> g_own cx i) ->
+    (unpin (g_base cx) stampF = true -> g_off cx <= oF /\ forall i, oF <= i -> g_own cx i) ->
+    (forall x y i, In (x, CV y) (ce_env ce) \/ In (x, CP y) (ce_env ce) -> index_of sc1 y = Some i -> fst y = idf \/ (g_keep cx i /\ i < oF)) ->
+    (forall i, ce_ghost ce i -> g_keep cx i /\ i < oF) ->
+    (forall i, g_keep0 cx i -> g_keep cx i) ->
+    stable cx P -> P vs n g ->
+    G cx (fst (den q rho v)) (Tend cx (snd (den q rho v)) P) (N sc1 pc (SV v :: g_st cx) (g_base cx) vs n o g).
+Proof.
+  intros q IH scR Hne idf oF rpc stampF outerF nvF sc1 ce pc nv sn cq nv' sn' Hc Hat Hlb Hnv pr A2 cx Hjmp rho v vs n o g P
+         Hsc Hpc HE Hn Ho Hlen Hct Hst Hoff Hko Hown Hunp HK Hgh HK0 [S1 S2] HP.
+  destruct (comp_mono _ _ _ _ _ _ _ _ _ Hc) as [M1 _].
+  assert (Hfr1 : frameOK sc1 idf oF) by (exists rpc, stampF, scR, outerF, scR; reflexivity).
+  set (K1 := fun i => g_keep cx i \/ oF <= i < oF + nv').
+  pose proof (keptT scR idf oF rpc stampF outerF ce rho vs (g_n0 cx) nv (fun i => g_keep cx i /\ i < oF) Hlb HE HK Hgh) as HkT. fold sc1 in HkT.
+  pose proof (IH sc1 idf oF Hfr1 ce pc nv sn cq nv' sn' Hc Hat rho v (g_st cx) (g_base cx) vs n (g_n0 cx) o o g K1 (g_keep0 cx) P
+                HE Hn ltac:(lia) (le_n _) Hlen) as HI. cbv zeta in HI.
+  set (c1 := ctx_of sc1 (pc + length cq) (g_st cx) (g_base cx) (oF + nv) (oF + nv') o o K1 (g_keep0 cx) ce (g_n0 cx) (ctr g)) in HI.
+  set (c1r := ctx_of sc1 pr (g_st cx) (g_base cx) (oF + nv) (oF + nv') o o K1 (g_keep0 cx) ce (g_n0 cx) (ctr g)).
+  refine (G_leaveT scR Hne idf oF rpc stampF outerF pr A2 cx c1r P Hsc Hpc eq_refl eq_refl eq_refl eq_refl eq_refl _ Hoff ltac:(simpl; lia) _ _ _
+            ltac:(simpl; lia) Hct _ (lbf tco fu) (lbf tco fu) ltac:(simpl; lia) _ _ _ _).
+  - simpl. intros i Hi. apply Hown. lia.
+  - intros Hu. exact (proj1 (Hunp Hu)).
+  - simpl. intros o3 i Ho3 [[Hi|Hi]|Hi]; [left; exact Hi|right; lia|right; lia].
+  - simpl. intros i Hi. exact Hi.
+  - simpl. intros vs0 fin e HEn. destruct fin as [[e0|l0|]|]; simpl in *; auto. destruct HEn as (x & k & id & Hk & _). rewrite Hlb in Hk. discriminate.
+  - refine (G_sub nt code c1r c1r (Tend c1 (snd (den q rho v)) P) _ eq_refl eq_refl eq_refl eq_refl (fun _ H => H) (fun _ _ _ H => H) (fun _ _ H => H)
+              (le_n _) (le_n _) (le_n _) _ _ _ _).
+    { intros s3. tsub. }
+    apply (G_exit nt code sc1 (pc + length cq) pr (g_st cx) (g_base cx) (g_own c1) K1 (g_keep0 cx) ce (g_n0 cx) o o (ctr g)
+             (Tend c1 (snd (den q rho v)) P) (Tend c1 (snd (den q rho v)) P) Hjmp).
+    apply HI.
+    + intros i Hi. unfold K1. right. lia.
+    + intros i Hi. unfold K1. destruct (HkT i Hi) as [[Hk _]|Hk]; [left; exact Hk|right; lia].
+    + intros i Hi. unfold K1. left. apply HK0. exact Hi.
+    + split.
+      * intros a b m0 x m' x' Hp C Hm. eapply S1; [exact Hp| |exact Hm]. eapply chg_mono; [|exact C]. simpl. intros i Hi. apply Hown. lia.
+      * exact S2.
+    + exact HP.
+Qed.
+
+Lemma implT_nt : forall q, Impl q ->
+  (forall ce pe cj cur pc nv sn r, compg tco q ce (Some (pe, Some cj)) cur pc nv sn = Some r -> comp q ce cur pc nv sn = Some r) -> ImplT q.
+Proof.
+  intros q IH Hcomp Htco scR Hne idf oF rpc stampF outerF pe nvF cj sc1 A1 Hcj ce pc nv sn cq nv' sn' Hc Hat Hlb Hnv pr A2 cx Hjmp rho v vs n o g P
+         Hsc Hpc Hklt HE Hn Ho Hlen Hct Hst Hoff Hko Hown Hunp HK Hgh HK0 HS HP.
+  apply Hcomp in Hc.
+  exact (implT_core q IH scR Hne idf oF rpc stampF outerF nvF ce pc nv sn cq nv' sn' Hc Hat Hlb Hnv pr A2 cx Hjmp rho v vs n o g P
+           Hsc Hpc HE Hn Ho Hlen Hct Hst Hoff Hko Hown Hunp HK Hgh HK0 HS HP).
+Qed.
+
+(* the context of a body of a composition in tail position of F1 (slots [oF, oF + nvF)), delivering to F1's caller cx:
+   after an inner output that left forks behind (fk'), F1 is pinned: the body owns its lexical slots and the area
+   above the current offset, and everything the caller keeps plus F1's slots is kept; after a forkless inner output
+   the body is in the caller's own situation *)
+Definition cbT (cx : gctx) (oF nvF : nat) (ownb0 : nat -> Prop) (fk' : list fork) (o t : nat) : gctx :=
+  match fk' with
+  | [] => {| g_sc := g_sc cx; g_pc := g_pc cx; g_st := g_st cx; g_base := g_base cx; g_own := g_own cx; g_keep := g_keep cx;
+             g_keep0 := g_keep0 cx; g_ce := ce_empty; g_n0 := g_n0 cx; g_off := g_off cx; g_koff := g_koff cx; g_ctr := t |}
+  | _ => {| g_sc := g_sc cx; g_pc := g_pc cx; g_st := g_st cx; g_base := fk' ++ g_base cx; g_own := fun i => ownb0 i \/ o <= i;
+            g_keep := fun i => g_keep cx i \/ oF <= i < oF + nvF; g_keep0 := fun i => g_keep cx i \/ oF <= i < oF + nvF;
+            g_ce := ce_empty; g_n0 := g_n0 cx; g_off := o; g_koff := g_koff cx; g_ctr := t |}
+  end.
+
+Lemma encR_nolbl : forall sc ce sc' ce' vs fin e, ce_lbls ce = [] -> encR sc ce vs fin e -> encR sc' ce' vs fin e.
+Proof.
+  intros sc ce sc' ce' vs fin e Hl HE. destruct fin as [[e0|l0|]|]; simpl in *; auto.
+  destruct HE as (x & k & id & Hk & _). rewrite Hl in Hk. discriminate.
+Qed.
+
+Lemma bind_tail : forall (f : jv -> result) scR idf oF rpc stampF outerF nvF,
+  let sc1 := Frame idf oF rpc stampF scR outerF :: scR in
+  forall cx ce rho nv n1 pc1 st1 o t (P : list sv -> nat -> gx -> Prop),
+  let c1 := ctx_of sc1 pc1 st1 (g_base cx) (oF + nv) (oF + n1) o o (fun i => oF + nv <= i < oF + n1 \/ kept sc1 ce i) (fun _ => False) ce (g_n0 cx) t in
+  let J := fun a m x => Jstd sc1 ce rho (g_n0 cx) (oF + nv) o P a m x in
+  let ownb0 := fun i => oF + n1 <= i < oF + nvF in
+  ce_lbls ce = [] -> nv <= n1 -> n1 <= nvF -> oF + nvF <= o ->
+  g_ctr cx <= t -> g_off cx <= o -> g_koff cx <= oF ->
+  (forall i, oF + nv <= i < oF + nvF \/ o <= i -> g_own cx i) ->
+  (forall x y i, In (x, CV y) (ce_env ce) \/ In (x, CP y) (ce_env ce) -> index_of sc1 y = Some i -> fst y = idf \/ (g_keep cx i /\ i < oF)) ->
+  (forall i, ce_ghost ce i -> g_keep cx i /\ i < oF) ->
+  (forall i, kept (g_sc cx) (g_ce cx) i -> i < oF) ->
+  stable cx P ->
+  (forall w fk' vs n o' x, J vs n x -> o <= o' <= length vs -> t <= ctr x -> Forall (fun f => t <= f_ctr f) fk' ->
+     G (cbT cx oF nvF ownb0 fk' o' (ctr x)) (fst (f w)) (Tend (cbT cx oF nvF ownb0 fk' o' (ctr x)) (snd (f w)) (wk fk' J P))
+       (N sc1 pc1 (SV w :: st1) (fk' ++ g_base cx) vs n o' x)) ->
+  forall r s, G c1 (fst r) (Tend c1 (snd r) (fun _ _ _ => True)) s -> J (vars_of s) (lbl_of s) (gx_of s) -> t <= ctr (gx_of s) ->
+    G cx (fst (bind r f)) (Tend cx (snd (bind r f)) P) s.
+Proof.
+  intros f scR idf oF rpc stampF outerF nvF sc1 cx ce rho nv n1 pc1 st1 o t P c1 J ownb0 Hlb Hn1 HnF HoF Hct Hoff Hko Hown HK Hgh Hklt [S1 S2] Hbody r s HA HJ Hcs.
+  set (fb := fun (_ : unit) w => (fst (f w), snd (f w), tt)).
+  unfold bind.
+  pose proof (foldgen_bind f (fst r)) as Ef. fold fb in Ef.
+  destruct (bind_list (fst r) f) as [os x] eqn:Eb. cbn [fst snd] in Ef.
+  assert (HkT : forall a m y, J a m y -> forall i, kept sc1 ce i -> g_keep cx i \/ oF <= i < oF + nv).
+  { intros a m y (E & _) i Hi. destruct (keptT scR idf oF rpc stampF outerF ce rho a (g_n0 cx) nv (fun i => g_keep cx i /\ i < oF) Hlb E HK Hgh i Hi) as [[Hk _]|Hk]; auto. }
+  assert (HkT0 : forall i, kept sc1 ce i -> g_keep cx i \/ oF <= i < oF + nv) by (exact (HkT _ _ _ HJ)).
+  assert (HG' : G cx os (Tend cx (match x with Some e => Some e | None => snd r end) P) s).
+  { refine (G_foldG nt code (lbf tco fu) c1 cx unit (fun _ => J) (fun _ => P) fb (cbT cx oF nvF ownb0)
+              eq_refl _ eq_refl Hoff Hct _ _ _ _ _ _ _ _ _ _ _ _ _ _ _ _ _ _ _ _ (fst r) tt s (snd r) os x tt HA HJ Hcs Ef).
+    all: try (intros [|f0 fk0] o' t'; reflexivity).
+    - intros vs0 fin e. apply encR_nolbl. exact Hlb.
+    - simpl. intros i Hi. apply Hown. lia.
+    - intros [|f0 fk0] o' t' i Ho' Hi; unfold c1 in Ho'; simpl in *; [exact Hi|]. apply Hown. unfold ownb0 in Hi. lia.
+    - intros [|f0 fk0] o' t' o'' a b Ho' Ho'' Kp; [exact Kp|]. unfold c1 in Ho'. simpl in Ho', Ho''.
+      eapply keepX_mono; [|exact Kp]. simpl. intros i [[Hi|Hi]|Hi]; [left; exact Hi|right; lia|right; exact Hi].
+    - intros [|f0 fk0] o' t' o'' a b Ho' Ho'' Kp; [exact Kp|]. unfold c1 in Ho'. simpl in Ho', Ho'', Kp.
+      eapply keepX_mono; [|exact Kp]. simpl. intros i [Hi|Hi]; [left; exact Hi|right; lia].
+    - intros [|f0 fk0] o' t' Ho'; unfold c1 in Ho'; simpl in *; lia.
+    - intros fk' o' t' vs0 fin e. destruct fk'; apply encR_nolbl; reflexivity.
+    - (* the body does not touch what the inner generator needs *)
+      intros [|f0 fk0] o3 t' a b x0 Ho3 Kp C; unfold c1 in Ho3, Kp |- *; simpl in *.
+      + destruct Kp as [L _], C as [L' _]. split; [lia|]. intros i [].
+      + destruct Kp as [L Kq], C as [L' C]. split; [lia|]. intros i Hi. rewrite (Kq i Hi). apply C. unfold ownb0. cbv beta. simpl in Hi.
+        destruct Hi as [[Hi|Hi]|Hi]; [clear - Hi Ho3 HnF HoF; lia| |clear - Hi Ho3 HnF HoF; lia].
+        pose proof (kept_lt _ _ _ _ _ _ _ (proj1 HJ) Hi) as Hkl. clear - Hkl Ho3 HnF HoF Hn1. lia.
+    - (* nor does the caller's continuation *)
+      intros [|f0 fk0] o3 t' o'' f1 a b x0 Ho3 Ho'' Kp C; unfold c1 in Ho3, Kp |- *; simpl in *.
+      + destruct Kp as [L _]. assert (length a <= length b) by (destruct f1; simpl in C; destruct C; lia). split; [lia|]. intros i [].
+      + assert (C' : keepS cx o'' a b) by (destruct f1; simpl in C; exact C).
+        destruct Kp as [L Kq], C' as [L' C']. split; [lia|]. intros i Hi. rewrite (Kq i Hi). apply C'. simpl in Hi |- *.
+        destruct Hi as [[Hi|Hi]|Hi]; [right; lia| |right; lia]. destruct (HkT0 i Hi); [left; auto|right; lia].
+    - intros i Hi. apply Hklt in Hi. simpl. lia.
+    - intros _ a b m y m' y' Hj C Hm. unfold J in *.
+      eapply Jstd_chg; [|  |exact Hj|exact C|exact Hm].
+      + intros p q k h k' h' Hp Cq Hk. eapply S1; [exact Hp| |exact Hk]. eapply chg_mono; [|exact Cq]. simpl. intros i Hi. apply Hown. lia.
+      + simpl. intros; lia.
+    - intros _ a b m y m' y' Hp C Hm. eapply S1; [exact Hp| |exact Hm]. eapply chg_mono; [|exact C]. simpl. intros i Hi. apply Hown. lia.
+    - intros _ a m y (_ & _ & _ & Hp). exact Hp.
+    - intros _ a m y fk' o' t' _ l0 x0 Hl. destruct fk'; simpl in Hl; discriminate.
+    - intros w g0 fk' vs' n' o' x0 os' x' g' Hj Ho' Ht' Hfk Efb. unfold fb in Efb. inversion Efb; subst os' x' g'.
+      apply Hbody; auto. }
+  destruct x as [e|]; exact HG'.
+Qed.
+
+(* an ImplT used as a body of a composition in tail position (the analogue of std_body) *)
+Lemma tail_body : forall q, ImplT q -> tco = true -> forall scR, scR <> [] -> forall idf oF rpc stampF outerF pe nvF cj,
+  let sc1 := Frame idf oF rpc stampF scR outerF :: scR in
+  at_ pe (Iscope idf nvF 0) -> (cj = true -> nvF = 0) ->
+  forall cx ce rho nv nb n1 o t (P : list sv -> nat -> gx -> Prop),
+  let J := fun a m x => Jstd sc1 ce rho (g_n0 cx) (oF + nv) o P a m x in
+  let ownb0 := fun i => oF + nb <= i < oF + nvF in
+  g_sc cx = scR -> g_pc cx = S rpc -> (forall i, kept scR (g_ce cx) i -> i < oF) ->
+  oF + nvF <= o -> g_off cx <= o -> g_koff cx <= oF -> stampF < t ->
+  (forall i, oF + nv <= i < oF + nvF \/ o <= i -> g_own cx i) ->
+  (unpin (g_base cx) stampF = true -> g_off cx <= oF /\ forall i, oF <= i -> g_own cx i) ->
+  (forall i, g_keep0 cx i -> g_keep cx i) -> stable cx P -> nv <= nb -> nb <= n1 ->
+  (forall x y i, In (x, CV y) (ce_env ce) \/ In (x, CP y) (ce_env ce) -> index_of sc1 y = Some i -> fst y = idf \/ (g_keep cx i /\ i < oF)) ->
+  (forall i, ce_ghost ce i -> g_keep cx i /\ i < oF) -> ce_lbls ce = [] ->
+  forall ceq rhoq pcq sn cq nvq' sn', compg tco q ceq (Some (pe, Some cj)) idf pcq n1 sn = Some (cq, nvq', sn') -> code_at pcq cq ->
+  ce_lbls ceq = [] -> nvq' <= nvF ->
+  forall pr, at_ pr Iret ->
+  (forall w f vs n o g, steps (N sc1 (pcq + length cq) (SV w :: g_st cx) f vs n o g) (N sc1 pr (SV w :: g_st cx) f vs n o g)) ->
+  (forall x y i, In (x, CV y) (ce_env ceq) \/ In (x, CP y) (ce_env ceq) -> index_of sc1 y = Some i -> fst y = idf \/ (g_keep cx i /\ i < oF)) ->
+  (forall i, ce_ghost ceq i -> g_keep cx i /\ i < oF) ->
+  forall w fk' vs' n' o' x, J vs' n' x -> envOK sc1 ceq rhoq vs' (g_n0 cx) (oF + n1) -> o <= o' <= length vs' -> t <= ctr x ->
+    g_ctr cx <= ctr x -> Forall (fun f => t <= f_ctr f) fk' ->
+    G (cbT cx oF nvF ownb0 fk' o' (ctr x)) (fst (den q rhoq w)) (Tend (cbT cx oF nvF ownb0 fk' o' (ctr x)) (snd (den q rhoq w)) (wk fk' J P))
+      (N sc1 pcq (SV w :: g_st cx) (fk' ++ g_base cx) vs' n' o' x).
+Proof.
+  intros q IHT Htco scR Hne idf oF rpc stampF outerF pe nvF cj sc1 A1 Hcj cx ce rho nv nb n1 o t P J ownb0 Hsc Hpc Hklt HoF Hoff Hko Hst Hown Hunp HK0 [S1 S2] Hnb Hn1
+         HK Hgh Hlb ceq rhoq pcq sn cq nvq' sn' Ec Hat Hlbq Hnq pr A2 Hjmp HKq Hghq w fk' vs' n' o' x Hj HEq Ho' Ht' Hcx Hfk.
+  pose proof Hj as (E' & Hn' & Hl' & Hp'). destruct (comp_mono _ _ _ _ _ _ _ _ _ Ec) as [Mq _].
+  assert (HkT : forall i, kept sc1 ce i -> g_keep cx i \/ oF <= i < oF + nv)
+    by (intros i Hi; destruct (keptT scR idf oF rpc stampF outerF ce rho vs' (g_n0 cx) nv (fun i => g_keep cx i /\ i < oF) Hlb E' HK Hgh i Hi) as [[Hk _]|Hk]; auto).
+  destruct fk' as [|f0 fk0].
+  - (* the inner generator is over: the caller's own situation *)
+    refine (IHT Htco scR Hne idf oF rpc stampF outerF pe nvF cj A1 Hcj ceq pcq n1 sn cq nvq' sn' Ec Hat Hlbq Hnq pr A2
+              (cbT cx oF nvF ownb0 [] o' (ctr x)) Hjmp rhoq w vs' n' o' x (wk [] J P) Hsc Hpc _ HEq Hn' ltac:(lia) (proj2 Ho')
+              (le_n _) ltac:(lia) ltac:(simpl; lia) Hko _ Hunp HKq Hghq HK0 (conj S1 S2) Hp').
+    + simpl. intros i [(x0 & y0 & [[]|[]] & _)|[(l0 & y0 & Hx & _)|[]]]. discriminate.
+    + simpl. intros i Hi. apply Hown. lia.
+  - (* F1 is pinned by the forks of the inner generator *)
+    assert (Hf0 : stampF < f_ctr f0) by (inversion Hfk; subst; lia).
+    refine (IHT Htco scR Hne idf oF rpc stampF outerF pe nvF cj A1 Hcj ceq pcq n1 sn cq nvq' sn' Ec Hat Hlbq Hnq pr A2
+              (cbT cx oF nvF ownb0 (f0 :: fk0) o' (ctr x)) Hjmp rhoq w vs' n' o' x (wk (f0 :: fk0) J P) Hsc Hpc _ HEq Hn' ltac:(lia) (proj2 Ho')
+              (le_n _) ltac:(lia) (le_n _) Hko _ _ _ _ (fun _ H => H) _ Hj).
+    + simpl. intros i [(x0 & y0 & [[]|[]] & _)|[(l0 & y0 & Hx & _)|[]]]. discriminate.
+    + simpl. unfold ownb0. intros i Hi. lia.
+    + simpl. intros Hu. apply Nat.leb_le in Hu. lia.
+    + simpl. intros x0 y0 i Hin Hi. destruct (HKq x0 y0 i Hin Hi) as [Hq|[Hq Hq']]; [left; auto|right; split; [left; auto|exact Hq']].
+    + simpl. intros i Hi. destruct (Hghq i Hi) as [Hq Hq']. split; [left; exact Hq|exact Hq'].
+    + split.
+      * intros a b m y m' y' Hja C Hm. unfold J in *. simpl in C.
+        eapply Jstd_chg; [| |exact Hja|exact C|exact Hm].
+        -- intros p q0 k h k' h' Hp Cq Hk. eapply S1; [exact Hp| |exact Hk]. eapply chg_mono; [|exact Cq]. unfold ownb0. intros i Hi. apply Hown. lia.
+        -- unfold ownb0. intros i Hi. lia.
+      * intros a b m y m' y' Hja C Hm. unfold J in *. unfold keepK0 in C. simpl in C.
+        refine (Jstd_keep _ _ _ _ _ _ _ _ _ _ _ _ _ _ _ _ Hja C Hm).
+        -- intros p q0 k h k' h' Hp Kq Hk. eapply S2; [exact Hp| |exact Hk]. unfold keepK0. eapply keepX_mono; [|exact Kq].
+           intros i Hi. left. apply HK0. exact Hi.
+        -- intros i Hi. destruct (HkT i Hi) as [Hk|Hk]; [left; exact Hk|right; lia].
+Qed.
+
+Lemma implT_pipe : forall a b, Impl a -> ImplT a -> ImplT b -> ImplT (QPipe a b).
+Proof.
+  intros a b IHa IHaT IHbT Htco scR Hne idf oF rpc stampF outerF pe nvF cj sc1 A1 Hcj ce pc nv sn cq nv' sn' Hc Hat Hlb Hnv pr A2 cx Hjmp rho v vs n o g P
+         Hsc Hpc Hklt HE Hn Ho Hlen Hct Hst Hoff Hko Hown Hunp HK Hgh HK0 HS HP.
+  simpl in Hc. destruct (emptycode b) eqn:Eb.
+  - (* the right side emits no code: the left side is in tail position *)
+    destruct (compg tco a ce (Some (pe, Some cj)) idf pc nv sn) as [[[ca n1] s1]|] eqn:Ec; [|discriminate].
+    rewrite (comp_empty tco b Eb) in Hc. inversion Hc; subst cq nv' sn'. clear Hc.
+    rewrite app_nil_r in *. rewrite (den_pipe_r nt _ a b Eb).
+    exact (IHaT Htco scR Hne idf oF rpc stampF outerF pe nvF cj A1 Hcj ce pc nv sn ca n1 s1 Ec Hat Hlb Hnv pr A2 cx Hjmp rho v vs n o g P
+             Hsc Hpc Hklt HE Hn Ho Hlen Hct Hst Hoff Hko Hown Hunp HK Hgh HK0 HS HP).
+  - destruct (comp a ce idf pc nv sn) as [[[ca n1] s1]|] eqn:Ec; [|discriminate].
+    destruct (compg tco b ce (Some (pe, Some cj)) idf (pc + length ca) n1 s1) as [[[cb n2] s2]|] eqn:Ec0; [|discriminate].
+    inversion Hc; subst cq nv' sn'. clear Hc.
+    destruct (code_at_app _ _ _ _ Hat) as [Hata Hatb].
+    destruct (comp_mono _ _ _ _ _ _ _ _ _ Ec) as [M1 _]. destruct (comp_mono _ _ _ _ _ _ _ _ _ Ec0) as [M2 _].
+    assert (Hfr1 : frameOK sc1 idf oF) by (exists rpc, stampF, scR, outerF, scR; reflexivity).
+    pose proof (impl_inner a IHa sc1 idf oF Hfr1 ce pc nv sn ca n1 s1 Ec Hata rho v (g_st cx) (g_base cx) vs n (g_n0 cx) o g HE Hn ltac:(lia) Hlen) as HA.
+    cbv zeta in HA. cbn [Den.den1].
+    rewrite app_length, Nat.add_assoc in Hjmp.
+    refine (bind_tail (den b rho) scR idf oF rpc stampF outerF nvF cx ce rho nv n1 (pc + length ca) (g_st cx) o (ctr g) P
+              Hlb M1 ltac:(lia) Ho Hct Hoff Hko Hown HK Hgh _ HS _ (den a rho v) _ HA _ (le_n _)).
+    + rewrite Hsc. exact Hklt.
+    + intros w fk' vs' n' o' x Hj Ho' Ht' Hfk. pose proof Hj as (E' & _).
+      refine (tail_body b IHbT Htco scR Hne idf oF rpc stampF outerF pe nvF cj A1 Hcj cx ce rho nv n1 n1 o (ctr g) P
+                Hsc Hpc Hklt Ho Hoff Hko Hst Hown Hunp HK0 HS M1 (le_n _) HK Hgh Hlb ce rho (pc + length ca) s1 cb n2 s2 Ec0 Hatb Hlb Hnv pr A2 Hjmp HK Hgh
+                w fk' vs' n' o' x Hj _ Ho' Ht' ltac:(lia) Hfk).
+      eapply envOK_lim; [exact E'|lia].
+    + split; [exact HE|]. split; [exact Hn|]. split; [exact Hlen|exact HP].
+Qed.
+
+Lemma implT_def : forall f ps body rest, ImplT rest -> ImplT (QDef f ps body rest).
+Proof.
+  intros f ps body rest IHrT Htco scR Hne idf oF rpc stampF outerF pe nvF cj sc1 A1 Hcj ce pc nv sn cq nv' sn' Hc Hat Hlb Hnv pr A2 cx Hjmp rho v vs n o g P
+         Hsc Hpc Hklt HE Hn Ho Hlen Hct Hst Hoff Hko Hown Hunp HK Hgh HK0 HS HP.
+  destruct (comp_def_inv _ _ _ _ _ _ _ _ _ _ _ _ Hc) as (Hlt & Hce & cb & nvb & s1 & cr & Eb & Er & ->). cbv zeta in Eb, Er. clear Hc.
+  set (pre := prelude sn ps) in *.
+  set (l := pc + 2 + length pre + length cb + 1) in *.
+  uncons Hat A0. uncons Hat A1'.
+  assert (Hatf : forall i x, nth_error (pre ++ cb ++ [Iret]) i = Some x -> nth_error code (S pc + 1 + i) = Some x).
+  { intros i x Hi. replace (S pc + 1 + i) with (S (S pc) + i) by lia. apply Hat.
+    replace (pre ++ cb ++ Iret :: cr) with ((pre ++ cb ++ [Iret]) ++ cr) by (rewrite <- !app_assoc; reflexivity).
+    apply nth_error_prefix. exact Hi. }
+  assert (Hatr : code_at l cr).
+  { intros i x Hi. replace (l + i) with (S (S pc) + (length pre + (length cb + S i))) by (unfold l; lia). apply Hat.
+    rewrite nth_error_app2 by lia. replace (length pre + (length cb + S i) - length pre) with (length cb + S i) by lia.
+    rewrite nth_error_app2 by lia. replace (length cb + S i - length cb) with (S i) by lia. exact Hi. }
+  assert (Epc : pc + length (Ijump l :: Iscope sn nvb (length ps) :: pre ++ cb ++ Iret :: cr) = l + length cr).
+  { simpl. rewrite !app_length. simpl. unfold l. lia. }
+  rewrite Epc in Hjmp.
+  cbn [Den.den1].
+  eapply G_pre; [one st_jump; apply steps_refl|apply chg_refl|cl|].
+  refine (IHrT Htco scR Hne idf oF rpc stampF outerF pe nvF cj A1 Hcj (add_fun ce f (S pc) (length ps)) l nv s1 cr nv' sn' Er Hatr Hlb Hnv pr A2 cx Hjmp
+            ((f, BF ps body) :: rho) v vs n o g P Hsc Hpc Hklt _ Hn Ho Hlen Hct Hst Hoff Hko Hown Hunp _ Hgh HK0 HS HP).
+  - apply envOK_add_fun; [exact HE|].
+    exists sn, nvb, cb, (S sn), s1. split; [exact A1'|]. split; [|split; [exact Hatf|apply ce_lt_fun; exact Hce]].
+    intros G. fold pre. replace (S pc + 1 + length pre) with (pc + 2 + length pre) by lia.
+    rewrite <- Eb. apply comp_ghost; reflexivity.
+  - simpl. intros x y i [[E|Hin]|[E|Hin]] Hi; try discriminate; apply (HK x y i); auto.
+Qed.
+
+Lemma implT_bind : forall qs x qb, Impl qs -> ImplT qb -> ImplT (QBind qs x qb).
+Proof.
+  intros qs x qb IHs IHbT Htco scR Hne idf oF rpc stampF outerF pe nvF cj sc1 A1 Hcj ce pc nv sn cq nv' sn' Hc Hat Hlb Hnv pr A2 cx Hjmp rho v vs n o g P
+         Hsc Hpc Hklt HE Hn Ho Hlen Hct Hst Hoff Hko Hown Hunp HK Hgh HK0 HS HP.
+  destruct (comp_bind_inv _ _ _ _ _ _ _ _ _ _ _ _ Hc) as (cs & n1 & s1 & cb & Es & Eb & ->). clear Hc.
+  destruct (comp_mono _ _ _ _ _ _ _ _ _ Es) as [M1 _]. destruct (comp_mono _ _ _ _ _ _ _ _ _ Eb) as [M2 _].
+  assert (Hfr1 : frameOK sc1 idf oF) by (exists rpc, stampF, scR, outerF, scR; reflexivity).
+  pose proof (frameOK_cur _ _ _ Hfr1) as Hcur.
+  assert (HJ0 : Jstd sc1 ce rho (g_n0 cx) (oF + nv) o P vs n g) by (split; auto).
+  assert (Hklt' : forall i, kept (g_sc cx) (g_ce cx) i -> i < oF) by (rewrite Hsc; exact Hklt).
+  cbn [Den.den1].
+  destruct (code_at_app _ _ _ _ Hat) as [Hpre Hatb].
+  rewrite app_length, Nat.add_assoc in Hjmp.
+  set (pcb := pc + length (bind_pre cs (idf, n1))) in *.
+  (* the body: store the output in the slot of x, then the bound query, in tail position *)
+  assert (Hbody : forall pcs, at_ pcs (Istore (idf, n1)) ->
+            (forall st0 f vs0 n0' o0 g0, steps (N sc1 (S pcs) st0 f vs0 n0' o0 g0) (N sc1 pcb st0 f vs0 n0' o0 g0)) ->
+            forall w fk' vs' n' o' z, Jstd sc1 ce rho (g_n0 cx) (oF + nv) o P vs' n' z -> o <= o' <= length vs' -> ctr g <= ctr z ->
+              Forall (fun f => ctr g <= f_ctr f) fk' ->
+              G (cbT cx oF nvF (fun i => oF + n1 <= i < oF + nvF) fk' o' (ctr z)) (fst (den qb ((x, BV w) :: rho) v))
+                (Tend (cbT cx oF nvF (fun i => oF + n1 <= i < oF + nvF) fk' o' (ctr z)) (snd (den qb ((x, BV w) :: rho) v))
+                   (wk fk' (Jstd sc1 ce rho (g_n0 cx) (oF + nv) o P) P))
+                (N sc1 pcs (SV w :: SV v :: g_st cx) (fk' ++ g_base cx) vs' n' o' z)).
+  { intros pcs As Hst2 w fk' vs' n' o' z Hj Ho' Ht' Hfk. pose proof Hj as (E' & Hn' & Hl' & Hp').
+    destruct (update_some vs' (oF + n1) (SV w)) as [vs'' U]; [lia|].
+    destruct (update_spec _ _ _ _ U) as (UL & UN & UO).
+    assert (Hj'' : Jstd sc1 ce rho (g_n0 cx) (oF + nv) o P vs'' n' z).
+    { destruct HS as [S1 S2]. split; [|split; [exact Hn'|split; [lia|]]].
+      - eapply envOK_same; [exact E'|]. intros k Hk. symmetry. apply UO. pose proof (kept_lt _ _ _ _ _ _ _ E' Hk). lia.
+      - eapply S1; [exact Hp'| |apply cle_refl]. eapply chg_update; [exact U|]. apply Hown. lia. }
+    eapply G_pre; [eapply steps_step; [eapply st_store; [exact As|apply Hcur|exact U]|apply Hst2]| |cl|].
+    { destruct fk'; simpl; (eapply chg_update; [exact U|]); [apply Hown; lia|left; lia]. }
+    refine (tail_body qb IHbT Htco scR Hne idf oF rpc stampF outerF pe nvF cj A1 Hcj cx ce rho nv n1 (S n1) o (ctr g) P
+              Hsc Hpc Hklt Ho Hoff Hko Hst Hown Hunp HK0 HS M1 (le_S _ _ (le_n _)) HK Hgh Hlb (add_var ce x (idf, n1)) ((x, BV w) :: rho) pcb s1 cb nv' sn' Eb Hatb Hlb Hnv pr A2 Hjmp _ Hgh
+              v fk' vs'' n' o' z Hj'' _ ltac:(lia) Ht' ltac:(lia) Hfk).
+    - simpl. intros x0 y0 i [[E|Hin]|[E|Hin]] Hi; try discriminate; [inversion E; subst; left; reflexivity|apply (HK x0 y0 i); auto|apply (HK x0 y0 i); auto].
+    - eapply envOK_add_var; [eapply envOK_lim; [exact (proj1 Hj'')|lia]|apply Hcur|lia|exact UN]. }
+  destruct cs as [|i0 cs'].
+  - (* the source emits no code: dup; nop; store x *)
+    destruct (comp_nil _ _ _ _ _ _ _ _ Es) as (E1 & -> & ->). unfold bind_pre in Hpre. simpl in pcb.
+    uncons Hpre B0. uncons Hpre B1. uncons Hpre B2.
+    rewrite (emptycode_den nt _ _ E1).
+    refine (bind_tail (fun w => den qb ((x, BV w) :: rho) v) scR idf oF rpc stampF outerF nvF cx ce rho nv nv (S (S pc)) (SV v :: g_st cx) o (ctr g) P
+              Hlb (le_n _) ltac:(lia) Ho Hct Hoff Hko Hown HK Hgh Hklt' HS _ ([v], None) (N sc1 pc (SV v :: g_st cx) (g_base cx) vs n o g) _ HJ0 (le_n _)).
+    + intros w fk' vs' n' o' z Hj Ho' Ht' Hfk.
+      apply (Hbody (S (S pc)) B2); auto. intros. replace (S (S (S pc))) with pcb by (unfold pcb; lia). apply steps_refl.
+    + cbn [fst snd]. eapply G_single; [one st_dup; one st_nop; apply steps_refl|apply chg_refl|cl|simpl; lia|auto].
+  - (* dup; expbegin; source; store x; expend *)
+    remember (i0 :: cs') as cs eqn:Ecs.
+    assert (Epre : bind_pre cs (idf, n1) = Idup :: Iexpbegin :: cs ++ [Istore (idf, n1); Iexpend]) by (subst cs; reflexivity).
+    rewrite Epre in Hpre. uncons Hpre B0. uncons Hpre B1.
+    destruct (code_at_app _ _ _ _ Hpre) as [Hats Hpre2]. uncons Hpre2 B2. uncons Hpre2 B3.
+    replace (S (S pc)) with (pc + 2) in * by lia.
+    assert (Epcb : pcb = S (S (pc + 2 + length cs))).
+    { unfold pcb. rewrite Epre. simpl. rewrite app_length. simpl. lia. }
+    pose proof (impl_inner qs IHs sc1 idf oF Hfr1 ce (pc + 2) nv sn cs n1 s1 Es Hats rho v (SV v :: g_st cx) (g_base cx) vs n (g_n0 cx) o g HE Hn ltac:(lia) Hlen) as HA.
+    cbv zeta in HA.
+    refine (bind_tail (fun w => den qb ((x, BV w) :: rho) v) scR idf oF rpc stampF outerF nvF cx ce rho nv n1 (pc + 2 + length cs) (SV v :: g_st cx) o (ctr g) P
+              Hlb M1 ltac:(lia) Ho Hct Hoff Hko Hown HK Hgh Hklt' HS _ (den qs rho v) (N sc1 pc (SV v :: g_st cx) (g_base cx) vs n o g) _ HJ0 (le_n _)).
+    + intros w fk' vs' n' o' z Hj Ho' Ht' Hfk.
+      apply (Hbody (pc + 2 + length cs) B2); auto. intros. one st_expend. rewrite Epcb. apply steps_refl.
+    + eapply G_pre; [one st_dup; one st_expbegin; apply steps_refl|apply chg_refl|cl|].
+      replace (S (S pc)) with (pc + 2) by lia. exact HA.
+Qed.
+
+Lemma implT_id : ImplT QId.
+Proof. apply (implT_nt QId impl_id). intros ce pe cj cur pc nv sn r H. exact H. Qed.
+
+Lemma implT_if : forall qc qa qb, Impl qc -> ImplT qa -> ImplT qb -> ImplT (QIf qc qa qb).
+Proof.
+  intros qc qa qb IHc IHaT IHbT Htco scR Hne idf oF rpc stampF outerF pe nvF cj sc1 A1 Hcj ce pc nv sn cq nv' sn' Hc Hat Hlb Hnv pr A2 cx Hjmp rho v vs n o g P
+         Hsc Hpc Hklt HE Hn Ho Hlen Hct Hst Hoff Hko Hown Hunp HK Hgh HK0 HS HP.
+  destruct (comp_if_inv _ _ _ _ _ _ _ _ _ _ _ _ Hc) as (cc & n1 & s1 & ca & n2 & s2 & cb & Ec & Ea & Eb & Hcq). cbv zeta in *. clear Hc.
+  set (pcc := pc + length (if_pre cc)) in *. set (e := pcc + 1 + length ca + 1) in *.
+  destruct (comp_mono _ _ _ _ _ _ _ _ _ Ec) as [M1 _]. destruct (comp_mono _ _ _ _ _ _ _ _ _ Ea) as [M2 _].
+  destruct (comp_mono _ _ _ _ _ _ _ _ _ Eb) as [M3 _].
+  assert (Hfr1 : frameOK sc1 idf oF) by (exists rpc, stampF, scR, outerF, scR; reflexivity).
+  assert (HJ0 : Jstd sc1 ce rho (g_n0 cx) (oF + nv) o P vs n g) by (split; auto).
+  assert (Hklt' : forall i, kept (g_sc cx) (g_ce cx) i -> i < oF) by (rewrite Hsc; exact Hklt).
+  cbn [Den.den1].
+  destruct Hcq as [(x & y & -> & -> & ->)| ->].
+  - (* constant results: nop ... jumpifnot; push x; jump; push y *)
+    change (Inop :: tl (if_pre cc) ++ [Ijumpifnot e; Ipush x; Ijump (e + 1); Ipush y])
+      with ((Inop :: tl (if_pre cc)) ++ [Ijumpifnot e; Ipush x; Ijump (e + 1); Ipush y]) in *.
+    destruct (code_at_app _ _ _ _ Hat) as [Hpre Hat2].
+    assert (Elen : pc + length (Inop :: tl (if_pre cc)) = pcc).
+    { unfold pcc. rewrite (if_pre_cons cc) at 2. reflexivity. }
+    rewrite Elen in Hat2. uncons Hat2 Aj. uncons Hat2 Ax. uncons Hat2 Ajmp. uncons Hat2 Ay.
+    assert (Epc : pc + length ((Inop :: tl (if_pre cc)) ++ [Ijumpifnot e; Ipush x; Ijump (e + 1); Ipush y]) = e + 1).
+    { rewrite app_length, Nat.add_assoc, Elen. unfold e. simpl. lia. }
+    assert (Ee : e = S (S (S pcc))) by (unfold e; simpl; lia).
+    rewrite Epc in Hjmp.
+    pose proof (if_cond qc IHc sc1 idf oF Hfr1 ce pc nv sn cc n1 s1 Ec Inop Hpre rho v (g_st cx) (g_st cx) (g_base cx) vs n (g_n0 cx) o g) as HA. cbv zeta in HA.
+    assert (A0 : at_ pc Inop) by (destruct (code_at_cons _ _ _ _ Hpre); auto).
+    specialize (HA (fun f vs n o g => st_nop nt code sc1 pc _ f vs n o g A0) HE Hn ltac:(lia) Hlen). fold pcc in HA.
+    rewrite (comp_const1 nt _ _ _ _ _ _ _ _ _ _ Ea), (comp_const1 nt _ _ _ _ _ _ _ _ _ _ Eb).
+    refine (bind_tail (fun w => if truthy w then ([x], None) else ([y], None)) scR idf oF rpc stampF outerF nvF cx ce rho nv n1 pcc (g_st cx) o (ctr g) P
+              Hlb M1 ltac:(lia) Ho Hct Hoff Hko Hown HK Hgh Hklt' HS _ _ _ HA HJ0 (le_n _)).
+    intros w fk' vs' n' o' z Hj Ho' Ht' Hfk. pose proof Hj as (E' & _).
+    assert (HB : forall u, G (cbT cx oF nvF (fun i => oF + n1 <= i < oF + nvF) fk' o' (ctr z)) [u]
+                            (Tend (cbT cx oF nvF (fun i => oF + n1 <= i < oF + nvF) fk' o' (ctr z)) None (wk fk' (Jstd sc1 ce rho (g_n0 cx) (oF + nv) o P) P))
+                            (N sc1 (e + 1) (SV u :: g_st cx) (fk' ++ g_base cx) vs' n' o' z)).
+    { intros u.
+      refine (tail_body QId implT_id Htco scR Hne idf oF rpc stampF outerF pe nvF cj A1 Hcj cx ce rho nv n1 n1 o (ctr g) P
+                Hsc Hpc Hklt Ho Hoff Hko Hst Hown Hunp HK0 HS M1 (le_n _) HK Hgh Hlb ce rho (e + 1) sn [] n1 sn eq_refl _ Hlb ltac:(lia) pr A2 _ HK Hgh
+                u fk' vs' n' o' z Hj _ Ho' Ht' ltac:(lia) Hfk).
+      - intros i0 x0 Hi0. destruct i0; discriminate.
+      - simpl length. rewrite Nat.add_0_r. exact Hjmp.
+      - eapply envOK_lim; [exact E'|lia]. }
+    eapply G_pre; [one st_jumpifnot; apply steps_refl|apply chg_refl|cl|].
+    destruct (truthy w); cbn [fst snd].
+    + eapply G_pre; [one st_push; one st_jump; apply steps_refl|apply chg_refl|cl|]. apply HB.
+    + eapply G_pre; [rewrite Ee in *; one st_push; replace (S (S (S (S pcc)))) with (S (S (S pcc)) + 1) by lia; apply steps_refl|apply chg_refl|cl|].
+      rewrite Ee in HB. apply HB.
+  - (* general *)
+    destruct (code_at_app _ _ _ _ Hat) as [Hpre Hat2]. fold pcc in Hat2.
+    uncons Hat2 Aj. destruct (code_at_app _ _ _ _ Hat2) as [Hata Hat3]. uncons Hat3 Ajmp.
+    replace (S (S pcc + length ca)) with e in Hat3 by (unfold e; lia). rename Hat3 into Hatb.
+    assert (Epc : pc + length (if_pre cc ++ Ijumpifnot e :: ca ++ Ijump (e + length cb) :: cb) = e + length cb).
+    { rewrite app_length. simpl. rewrite app_length. simpl. unfold e, pcc. lia. }
+    rewrite Epc in Hjmp.
+    rewrite (if_pre_cons cc) in Hpre.
+    pose proof (if_cond qc IHc sc1 idf oF Hfr1 ce pc nv sn cc n1 s1 Ec Idup Hpre rho v (g_st cx) (SV v :: g_st cx) (g_base cx) vs n (g_n0 cx) o g) as HA. cbv zeta in HA.
+    assert (A0 : at_ pc Idup) by (destruct (code_at_cons _ _ _ _ Hpre); auto).
+    specialize (HA (fun f vs n o g => st_dup nt code sc1 pc _ _ f vs n o g A0) HE Hn ltac:(lia) Hlen). fold pcc in HA.
+    refine (bind_tail (fun w => if truthy w then den qa rho v else den qb rho v) scR idf oF rpc stampF outerF nvF cx ce rho nv n1 pcc (SV v :: g_st cx) o (ctr g) P
+              Hlb M1 ltac:(lia) Ho Hct Hoff Hko Hown HK Hgh Hklt' HS _ _ _ HA HJ0 (le_n _)).
+    intros w fk' vs' n' o' z Hj Ho' Ht' Hfk. pose proof Hj as (E' & _).
+    eapply G_pre; [one st_jumpifnot; apply steps_refl|apply chg_refl|cl|].
+    destruct (truthy w).
+    + (* then-branch, followed by the jump over the else-branch *)
+      refine (tail_body qa IHaT Htco scR Hne idf oF rpc stampF outerF pe nvF cj A1 Hcj cx ce rho nv n1 n1 o (ctr g) P
+                Hsc Hpc Hklt Ho Hoff Hko Hst Hown Hunp HK0 HS M1 (le_n _) HK Hgh Hlb ce rho (S pcc) s1 ca n2 s2 Ea Hata Hlb ltac:(lia) pr A2 _ HK Hgh
+                v fk' vs' n' o' z Hj _ Ho' Ht' ltac:(lia) Hfk).
+      * intros w' f vs2 n2' o2 g2. eapply steps_step; [eapply st_jump; exact Ajmp|]. apply Hjmp.
+      * eapply envOK_lim; [exact E'|lia].
+    + refine (tail_body qb IHbT Htco scR Hne idf oF rpc stampF outerF pe nvF cj A1 Hcj cx ce rho nv n1 n2 o (ctr g) P
+                Hsc Hpc Hklt Ho Hoff Hko Hst Hown Hunp HK0 HS M1 M2 HK Hgh Hlb ce rho e s2 cb nv' sn' Eb Hatb Hlb Hnv pr A2 Hjmp HK Hgh
+                v fk' vs' n' o' z Hj _ Ho' Ht' ltac:(lia) Hfk).
+      eapply envOK_lim; [exact E'|lia].
+Qed.
+
+(* the standard invariant is stable in the context of a body that runs while F1 is pinned *)
+Lemma stable_cbT : forall scR idf oF rpc stampF outerF nvF cx ce rho nv nb o (P : list sv -> nat -> gx -> Prop) f0 fk0 o' t,
+  let sc1 := Frame idf oF rpc stampF scR outerF :: scR in
+  stable cx P -> (forall i, oF + nv <= i < oF + nvF \/ o <= i -> g_own cx i) -> (forall i, g_keep0 cx i -> g_keep cx i) ->
+  (forall i, kept sc1 ce i -> g_keep cx i \/ oF <= i < oF + nv) -> nv <= nb -> nb <= nvF -> o <= o' -> oF + nvF <= o ->
+  stable (cbT cx oF nvF (fun i => oF + nb <= i < oF + nvF) (f0 :: fk0) o' t) (Jstd sc1 ce rho (g_n0 cx) (oF + nv) o P).
+Proof.
+  intros scR idf oF rpc stampF outerF nvF cx ce rho nv nb o P f0 fk0 o' t sc1 [S1 S2] Hown HK0 HkT Hnb HnF Ho' HoF. split.
+  - intros a b m y m' y' Hja C Hm. simpl in C.
+    eapply Jstd_chg; [| |exact Hja|exact C|exact Hm].
+    + intros p q0 k h k' h' Hp Cq Hk. eapply S1; [exact Hp| |exact Hk]. eapply chg_mono; [|exact Cq]. intros i Hi. simpl in Hi. apply Hown. lia.
+    + intros i Hi. simpl in Hi. lia.
+  - intros a b m y m' y' Hja C Hm. unfold keepK0 in C. simpl in C.
+    refine (Jstd_keep _ _ _ _ _ _ _ _ _ _ _ _ _ _ _ _ Hja C Hm).
+    + intros p q0 k h k' h' Hp Kq Hk. eapply S2; [exact Hp| |exact Hk]. unfold keepK0. eapply keepX_mono; [|exact Kq].
+      intros i Hi. left. apply HK0. exact Hi.
+    + intros i Hi. destruct (HkT i Hi) as [Hk|Hk]; [left; exact Hk|right; lia].
+Qed.
+
+Lemma implT_comma : forall a b, ImplT a -> ImplT b -> ImplT (QComma a b).
+Proof.
+  intros a b IHaT IHbT Htco scR Hne idf oF rpc stampF outerF pe nvF cj sc1 A1 Hcj ce pc nv sn cq nv' sn' Hc Hat Hlb Hnv pr A2 cx Hjmp rho v vs n o g P
+         Hsc Hpc Hklt HE Hn Ho Hlen Hct Hst Hoff Hko Hown Hunp HK Hgh HK0 HS HP.
+  simpl in Hc.
+  destruct (compg tco a ce (Some (pe, Some cj)) idf (S pc) nv sn) as [[[ca n1] s1]|] eqn:Ec; [|discriminate].
+  destruct (compg tco b ce (Some (pe, Some cj)) idf (pc + 1 + length ca + 1) n1 s1) as [[[cb n2] s2]|] eqn:Ec0; [|discriminate].
+  inversion Hc; subst cq nv' sn'. clear Hc.
+  uncons Hat B1. destruct (code_at_app _ _ _ _ Hat) as [Hata Hat2]. uncons Hat2 B2. rename Hat2 into Hatb.
+  destruct (comp_mono _ _ _ _ _ _ _ _ _ Ec) as [M1 _]. destruct (comp_mono _ _ _ _ _ _ _ _ _ Ec0) as [M2 _].
+  set (L := pc + 1 + length ca + 1) in *.
+  replace (S (S pc + length ca)) with L in Hatb by (unfold L; lia).
+  assert (Epc : pc + length (Ifork L :: ca ++ Ijump (L + length cb) :: cb) = L + length cb).
+  { simpl. rewrite app_length. simpl. unfold L. lia. }
+  rewrite Epc in Hjmp.
+  pose proof HS as [S1 S2].
+  set (fx := F sc1 pc (SV v :: g_st cx) o (ctr g)).
+  set (Pa := Jstd sc1 ce rho (g_n0 cx) (oF + nv) o P).
+  set (ca' := cbT cx oF nvF (fun i => oF + nv <= i < oF + nvF) [fx] o (ctr g)).
+  assert (HkT : forall i, kept sc1 ce i -> g_keep cx i \/ oF <= i < oF + nv).
+  { intros i Hi. destruct (keptT scR idf oF rpc stampF outerF ce rho vs (g_n0 cx) nv (fun i => g_keep cx i /\ i < oF) Hlb HE HK Hgh i Hi) as [[Hk _]|Hk]; auto. }
+  (* a, in tail position as well, with the fork of the comma below its forks *)
+  assert (HA : G ca' (fst (den a rho v)) (Tend ca' (snd (den a rho v)) Pa) (N sc1 (S pc) (SV v :: g_st cx) (fx :: g_base cx) vs n o g)).
+  { refine (IHaT Htco scR Hne idf oF rpc stampF outerF pe nvF cj A1 Hcj ce (S pc) nv sn ca n1 s1 Ec Hata Hlb ltac:(lia) pr A2 ca' _ rho v vs n o g Pa
+              Hsc Hpc _ HE Hn Ho Hlen (le_n _) Hst (le_n _) Hko _ _ _ _ (fun _ H => H) _ _).
+    - intros w f vs0 n0' o0 g0. eapply steps_step; [eapply st_jump; replace (S pc + length ca) with (S (pc + length ca)) by lia; exact B2|]. apply Hjmp.
+    - simpl. intros i [(x0 & y0 & [[]|[]] & _)|[(l0 & y0 & Hx & _)|[]]]. discriminate.
+    - simpl. intros i Hi. lia.
+    - simpl. intros Hu. apply Nat.leb_le in Hu. lia.
+    - simpl. intros x0 y0 i Hin Hi. destruct (HK x0 y0 i Hin Hi) as [Hq|[Hq Hq']]; [left; auto|right; split; [left; auto|exact Hq']].
+    - simpl. intros i Hi. destruct (Hgh i Hi) as [Hq Hq']. split; [left; exact Hq|exact Hq'].
+    - apply (stable_cbT scR idf oF rpc stampF outerF nvF cx ce rho nv nv o P fx [] o (ctr g) HS Hown HK0 HkT (le_n _) ltac:(lia) (le_n _) Ho).
+    - split; auto. }
+  eapply G_pre; [eapply steps_step; [eapply st_fork; exact B1|apply steps_refl]|apply chg_refl|cl|].
+  assert (Hfx : Forall (fun f => g_ctr cx <= f_ctr f) [fx]) by (constructor; [simpl; lia|constructor]).
+  assert (Htr : forall x vs' n' g', (fun _ _ gg => ctr g <= ctr gg) vs' n' g' -> okerr (g_n0 cx) x -> exists vs4 n4 g4,
+            steps (B (Some x) ([fx] ++ g_base cx) vs' n' g') (B (Some x) (g_base cx) vs4 n4 g4) /\ chg (g_own cx) vs' vs4 /\ cle n' g' n4 g4).
+  { intros x vs' n' g' _ _. exists vs', n', g'. split; [eapply fork_transparent; exact B1|]. split; [apply chg_refl|cl]. }
+  assert (Hoc : forall i, g_own ca' i -> g_own cx i) by (simpl; intros i Hi; apply Hown; lia).
+  assert (Hks : forall o0 p q, g_off ca' <= o0 -> keepS cx o0 p q -> keepS ca' o0 p q).
+  { intros o0 p q Ho0 Kp. simpl in Ho0. eapply keepX_mono; [|exact Kp]. simpl. intros i [[Hi|Hi]|Hi]; [left; exact Hi|right; lia|right; exact Hi]. }
+  assert (Hk0' : forall o0 p q, g_off ca' <= o0 -> keepS' cx o0 [fx] p q -> keepK0 ca' p q).
+  { intros o0 p q Ho0 Kp. simpl in Ho0, Kp. unfold keepK0. simpl. eapply keepX_mono; [|exact Kp]. simpl. intros i [Hi|Hi]; [left; exact Hi|right; lia]. }
+  cbn [Den.den1]. destruct (den a rho v) as [wsa [xa|]] eqn:Ea; cbn [seq fst snd] in *.
+  - (* a raised: the fork propagates the error *)
+    assert (Hm : forall z1, ctr g <= ctr (gx_of z1) -> Tend ca' (Some xa) Pa z1 -> Tend cx (Some xa) P z1).
+    { intros z1 _ HT. destruct (Tend_inv _ _ _ _ _ _ _ HT) as [[EF HFu]|(e & vs4 & n4 & g4 & St4 & Ch4 & Le4 & HE4 & HP4)].
+      - inversion EF; subst. apply Tend_fuel. eapply Tfuel_mono; [|exact HFu]. simpl. lia.
+      - destruct (encR_some _ _ _ _ _ HE4) as (y & ->). simpl in St4, Ch4.
+        apply Tend_of. exists (Some y), vs4, n4, g4. split; [eapply steps_trans; [exact St4|eapply fork_transparent; exact B1]|].
+        split; [exact (chg_mono _ _ _ _ Hoc Ch4)|]. split; [auto|]. split; [eapply encR_nolbl; [|exact HE4]; reflexivity|apply HP4]. }
+    match type of HA with G2 _ ?w0 _ _ ?st0 => refine (G_ctxo nt code ca' cx [fx] (fun _ _ gg => ctr g <= ctr gg) _ _ _ _ eq_refl eq_refl eq_refl eq_refl Hoc Hks Hk0' (le_n _) Hoff Hct Hfx _ _ Htr Hm Hm w0 st0 (le_n _) HA) end;
+      try (intros; unfold cle in *; simpl in *; lia).
+  - (* a ended: the fork resumes at b *)
+    apply G_app.
+    assert (Hm : forall z1, ctr g <= ctr (gx_of z1) -> Tend ca' None Pa z1 ->
+                   G cx (fst (den b rho v)) (Tend cx (snd (den b rho v)) P) z1).
+    { intros z1 HQz HT. destruct (Tend_inv _ _ _ _ _ _ _ HT) as [[EF _]|(e & vs4 & n4 & g4 & St4 & Ch4 & Le4 & HE4 & (E4 & Hn4 & Hl4 & HP4))]; [discriminate EF|].
+      simpl in St4, Ch4, HE4. subst e.
+      eapply G_pre; [eapply steps_trans; [exact St4|eapply steps_step; [apply st_popfork|]; eapply steps_step; [eapply bt_fork_none; exact B1|]; apply steps_refl]
+                    |exact (chg_mono _ _ _ _ Hoc Ch4)|exact Le4|].
+      assert (Hg4 : ctr g <= ctr g4) by (destruct Le4; simpl in *; lia).
+      refine (IHbT Htco scR Hne idf oF rpc stampF outerF pe nvF cj A1 Hcj ce L n1 s1 cb n2 s2 Ec0 Hatb Hlb Hnv pr A2 cx Hjmp rho v vs4 n4 o g4 P
+                Hsc Hpc Hklt _ Hn4 Ho Hl4 ltac:(lia) ltac:(lia) Hoff Hko _ Hunp HK Hgh HK0 HS HP4).
+      - eapply envOK_lim; [exact E4|lia].
+      - intros i Hi. apply Hown. lia. }
+    match type of HA with G2 _ ?w0 _ _ ?st0 => refine (G_ctxo nt code ca' cx [fx] (fun _ _ gg => ctr g <= ctr gg) _ _ _ _ eq_refl eq_refl eq_refl eq_refl Hoc Hks Hk0' (le_n _) Hoff Hct Hfx _ _ Htr Hm Hm w0 st0 (le_n _) HA) end;
+      try (intros; unfold cle in *; simpl in *; lia).
+Qed.
+
+(* a call in tail position: of the enclosing function itself (jump / opcallrec), or any other call *)
+Lemma implT_callf : forall f args, Forall (fun a => Impl a) args -> ImplT (QCallF f args).
+Proof.
+  intros f args IHargs Htco scR Hne idf oF rpc stampF outerF pe nvF cj sc1 A1 Hcj ce pc nv sn cq nv' sn' Hc Hat Hlb Hnv pr A2 cx Hjmp rho v vs n o g P
+         Hsc Hpc Hklt HE Hn Ho Hlen Hct Hst Hoff Hko Hown Hunp HK Hgh HK0 HS HP.
+  (* every case but the call of the enclosing function itself emits the code of the ordinary mode *)
+  assert (Hnt : comp (QCallF f args) ce idf pc nv sn = Some (cq, nv', sn') ->
+                G cx (fst (den (QCallF f args) rho v)) (Tend cx (snd (den (QCallF f args) rho v)) P) (N sc1 pc (SV v :: g_st cx) (g_base cx) vs n o g)).
+  { intros Hc'. exact (implT_core (QCallF f args) (impl_callf f args IHargs) scR Hne idf oF rpc stampF outerF nvF ce pc nv sn cq nv' sn' Hc' Hat Hlb Hnv pr A2 cx Hjmp
+                         rho v vs n o g P Hsc Hpc HE Hn Ho Hlen Hct Hst Hoff Hko Hown Hunp HK Hgh HK0 HS HP). }
+  simpl in Hc, Hnt.
+  destruct (lookup_cf f (length args) (ce_env ce)) as [[y|p nf|y]|] eqn:Ef; try discriminate; [|apply Hnt; exact Hc].
+  destruct args as [|a0 args']; [|apply Hnt; exact Hc].
+  unfold tail_call in Hc. destruct (Nat.eqb_spec pe p) as [Epe|Epe]; [|apply Hnt; exact Hc]. subst p. clear Hnt.
+  (* the function: its body was compiled in tail mode *)
+  pose proof HE as (Hv & Hl & Hgh0).
+  destruct (envOKl_fun _ _ _ _ _ _ _ _ _ _ Hv Ef) as (ps & body & cel' & rho' & pre & _ & Hlps & Hlf &
+            (idf' & nvb & cb & s0 & s1 & Hscp & Hcb & Hcode & Hclt) & Hv' & Epre).
+  destruct ps as [|p0 ps']; [|discriminate Hlps].
+  unfold Mach.at_ in A1. rewrite A1 in Hscp. inversion Hscp; subst idf' nvb. clear Hscp.
+  assert (Etl : tl_body tco pe [] body = Some (pe, Some (Nat.eqb (nvars body) 0))) by (unfold tl_body; rewrite Htco; reflexivity).
+  set (ceF := {| ce_env := cel'; ce_lbls := []; ce_ghost := ce_ghost ce |}).
+  assert (HcbF : compg tco body ceF (Some (pe, Some (Nat.eqb (nvars body) 0))) idf (S pe) 0 s0 = Some (cb, nvF, s1)).
+  { specialize (Hcb (ce_ghost ce)). rewrite Etl in Hcb. simpl in Hcb. replace (pe + 1 + 0) with (S pe) in Hcb by lia. exact Hcb. }
+  assert (Hatb : code_at (S pe) (cb ++ [Iret])).
+  { intros i x Hi. replace (S pe + i) with (pe + 1 + i) by lia. apply Hcode. exact Hi. }
+  destruct (code_at_app _ _ _ _ Hatb) as [Hatcb Hat3]. uncons Hat3 Aret.
+  pose proof (comp_nvars _ _ _ _ _ _ _ _ _ _ _ HcbF) as Hnvb. simpl in Hnvb.
+  assert (Hcj' : Nat.eqb (nvars body) 0 = true -> nvF = 0) by (intros E; apply Nat.eqb_eq in E; lia).
+  assert (HKF : forall x y i, In (x, CV y) cel' \/ In (x, CP y) cel' -> index_of sc1 y = Some i -> g_keep cx i /\ i < oF).
+  { intros x y i Hin Hi. pose proof (ce_lt_var {| ce_env := cel'; ce_lbls := []; ce_ghost := fun _ => False |} idf x y Hclt Hin) as Hlt.
+    destruct (HK x y i) as [E|Hk]; [rewrite Epre; destruct Hin as [Hin|Hin]; [left|right]; apply suffix_In; exact Hin|exact Hi|lia|exact Hk]. }
+  cbn [Den.den1]. rewrite Hlf. cbn [bindps].
+  case_eq fu; [intros Efu|intros m Efu].
+  { cbn [call_of fst snd]. apply G_fuel. simpl. lia. }
+  cbn [call_of]. assert (Hm : m < fu) by lia.
+  assert (Hfr1 : frameOK sc1 idf oF) by (exists rpc, stampF, scR, outerF, scR; reflexivity).
+  destruct (comp_mono _ _ _ _ _ _ _ _ _ HcbF) as [_ Msn].
+  pose proof HS as [S1 S2].
+  eapply G_impl; [intros s5 HT5; refine (Tend_lb_mono (lbf tco m) _ _ _ _ _ _ HT5); rewrite Htco; simpl; lia|].
+  destruct cj.
+  - (* no variable in the function's scope: jump to its body, in the same frame *)
+    specialize (Hcj eq_refl). inversion Hc; subst cq nv' sn'. clear Hc. uncons Hat B0.
+    assert (Env : nv = 0) by lia. subst nv nvF.
+    eapply G_pre; [eapply steps_step; [eapply st_jump; exact B0|apply steps_refl]|apply chg_refl|cl|].
+    refine (IHfuT m Hm body Htco scR Hne idf oF rpc stampF outerF pe 0 (Nat.eqb (nvars body) 0) A1 Hcj' ceF (S pe) 0 s0 cb 0 s1 HcbF Hatcb eq_refl (le_n _)
+              (S pe + length cb) Aret cx (fun _ _ _ _ _ _ => steps_refl _ _ _) rho' v vs n o g P Hsc Hpc Hklt _ Hn Ho Hlen Hct Hst Hoff Hko _ Hunp _ Hgh HK0 HS HP).
+    + split; [|split]; simpl.
+      * exact Hv'.
+      * intros l0 y0 Hy. discriminate.
+      * exact Hgh0.
+    + intros i [Hi|Hi]; [lia|]. apply Hown. right. exact Hi.
+    + simpl. intros x y i Hin Hi. right. exact (HKF x y i Hin Hi).
+  - (* opcallrec: the frame is replaced *)
+    inversion Hc; subst cq nv' sn'. clear Hc. uncons Hat B0.
+    set (g' := {| ctr := ctr g; creg := (None, sc1) |}).
+    set (o2 := if unpin (g_base cx) stampF then oF else o).
+    assert (Ho2 : oF <= o2 <= o) by (unfold o2; destruct (unpin (g_base cx) stampF); lia).
+    assert (Hoff2 : g_off cx <= o2).
+    { unfold o2. destruct (unpin (g_base cx) stampF) eqn:Eu; [exact (proj1 (Hunp eq_refl))|exact Hoff]. }
+    assert (Hown2 : forall i, o2 <= i -> g_own cx i).
+    { unfold o2. destruct (unpin (g_base cx) stampF) eqn:Eu; [exact (proj2 (Hunp eq_refl))|]. intros i Hi. apply Hown. right. exact Hi. }
+    set (sc' := Frame idf o2 rpc (ctr g') scR (outer_of scR idf sc1) :: scR).
+    set (vs' := grow vs (o2 + nvF)).
+    set (g1 := {| ctr := S (ctr g'); creg := creg g' |}).
+    assert (Hps : pushed sc1 idf sc') by (exists o2, rpc, (ctr g'), scR, scR; reflexivity).
+    assert (Hgrow : chg (g_own cx) vs vs').
+    { split; [apply grow_len_le|]. intros i Hi. symmetry. apply grow_nth.
+      destruct (Nat.lt_ge_cases i (length vs)) as [Hl0|Hl0]; [exact Hl0|]. exfalso. apply Hi, Hown2. lia. }
+    eapply G_pre with (s1 := N sc' (S pe) (SV v :: g_st cx) (g_base cx) vs' n (o2 + nvF) g1).
+    { eapply steps_step; [eapply st_callrec; exact B0|]. eapply steps_step; [|apply steps_refl].
+      unfold sc1. etransitivity; [eapply (st_scope_rec nt code idf oF rpc stampF scR outerF scR pe idf nvF 0); [exact A1|reflexivity]|]. reflexivity. }
+    { exact Hgrow. }
+    { unfold g1, g'. cl. }
+    refine (IHfuT m Hm body Htco scR Hne idf o2 rpc (ctr g') (outer_of scR idf sc1) pe nvF (Nat.eqb (nvars body) 0) A1 Hcj' ceF (S pe) 0 s0 cb nvF s1 HcbF Hatcb eq_refl (le_n _)
+              (S pe + length cb) Aret cx (fun _ _ _ _ _ _ => steps_refl _ _ _) rho' v vs' n (o2 + nvF) g1 P Hsc Hpc _ _ Hn (le_n _) (grow_len _ _)
+              ltac:(unfold g1, g'; simpl; lia) ltac:(unfold g1, g'; simpl; lia) ltac:(lia) ltac:(lia) _ _ _ _ HK0 HS _).
+    + intros i Hi. apply Hklt in Hi. lia.
+    + (* the function's environment in the new chain, below the new frame *)
+      split; [|split]; simpl.
+      * rewrite Nat.add_0_r.
+        assert (Hne' : forall x y, In (x, CV y) cel' \/ In (x, CP y) cel' -> fst y <> idf).
+        { intros x y Hin. pose proof (ce_lt_var {| ce_env := cel'; ce_lbls := []; ce_ghost := fun _ => False |} idf x y Hclt Hin). lia. }
+        eapply envOKl_lower; [eapply envOKl_pushed; [exact Hps| |exact Hv'|exact Hne']| |].
+        -- intros a Ha. apply grow_nth. lia.
+        -- intros x y i Hin Hi. change (index_of sc' y = Some i) in Hi. rewrite (index_of_pushed _ _ _ _ Hps (Hne' x y Hin)) in Hi. destruct (HKF x y i Hin Hi). lia.
+        -- intros i Hi. destruct (Hgh i Hi). lia.
+      * intros l0 y0 Hy. discriminate.
+      * intros i Hi. destruct (Hgh i Hi). lia.
+    + intros i Hi. apply Hown2. lia.
+    + intros _. split; [exact Hoff2|exact Hown2].
+    + simpl. intros x y i Hin Hi. right.
+      assert (Hney : fst y <> idf) by (pose proof (ce_lt_var {| ce_env := cel'; ce_lbls := []; ce_ghost := fun _ => False |} idf x y Hclt Hin); lia).
+      change (index_of sc' y = Some i) in Hi. rewrite (index_of_pushed _ _ _ _ Hps Hney) in Hi. destruct (HKF x y i Hin Hi). split; [auto|lia].
+    + simpl. intros i Hi. destruct (Hgh i Hi). split; [auto|lia].
+    + eapply S1; [exact HP|exact Hgrow|unfold g1, g'; cl].
+Qed.
+
+(* the constructs that hand no tail position on, or hand on one the theorem does not cover (Compile.tl_fb): in tail
+   mode they compile, if at all, to the code of the ordinary mode *)
+Ltac nt_comp :=
+  let H := fresh "H" in
+  intros ? ? ? ? ? ? ? ? H; cbn -[Nat.add Nat.ltb Nat.eqb ce_lt prelude param_env param_slots comp_args tl_body emptycode] in H |- *;
+  try exact H;
+  repeat match goal with
+  | H : context [match compg ?t ?q0 ?ce0 ?tp ?c ?p ?n ?s with _ => _ end] |- _ =>
+      let E := fresh "E" in destruct (compg t q0 ce0 tp c p n s) as [[[? ?] ?]|] eqn:E; [|discriminate H];
+      try (apply comp_forbid in E); try rewrite E
+  end; try exact H.
+
+Theorem impl_all : forall q, Impl q /\ ImplT q.
 Proof.
   intros q. qind q.
-  - apply impl_id. - apply impl_const. - apply impl_pipe; auto. - apply impl_comma; auto. - apply impl_empty.
-  - apply impl_iter; auto. - apply impl_index; auto. - apply impl_if; auto. - apply impl_alt; auto.
-  - apply impl_try; auto. - apply impl_array; auto. - apply impl_reduce; auto. - apply impl_foreach; auto.
-  - apply impl_label; auto. - apply impl_break. - apply impl_bind; auto. - apply impl_var. - apply impl_call0.
-  - apply impl_binop; auto. - apply impl_def; auto. - apply impl_callf; auto.
+  - split; [apply impl_id|apply implT_id].
+  - split; [apply impl_const|apply implT_nt; [apply impl_const|nt_comp]].
+  - destruct IHa, IHb. split; [apply impl_pipe; auto|apply implT_pipe; auto].
+  - destruct IHa, IHb. split; [apply impl_comma; auto|apply implT_comma; auto].
+  - split; [apply impl_empty|apply implT_nt; [apply impl_empty|nt_comp]].
+  - destruct IHt. split; [apply impl_iter; auto|apply implT_nt; [apply impl_iter; auto|nt_comp]].
+  - destruct IHt. split; [apply impl_index; auto|apply implT_nt; [apply impl_index; auto|nt_comp]].
+  - destruct IHc, IHa, IHb. split; [apply impl_if; auto|apply implT_if; auto].
+  - destruct IHa, IHb. split; [apply impl_alt; auto|apply implT_nt; [apply impl_alt; auto|nt_comp]].
+  - destruct IHa as [Ia _].
+    assert (Ih : Popt (fun q => Impl q) h) by (destruct h; simpl in *; [exact (proj1 IHh)|exact I]).
+    split; [apply impl_try; auto|apply implT_nt; [apply impl_try; auto|]].
+    destruct h as [h|]; nt_comp.
+  - destruct IHq. split; [apply impl_array; auto|apply implT_nt; [apply impl_array; auto|nt_comp]].
+  - destruct IHs, IHi, IHu. split; [apply impl_reduce; auto|apply implT_nt; [apply impl_reduce; auto|nt_comp]].
+  - destruct IHs, IHi, IHu.
+    assert (Ie : Popt (fun q => Impl q) e) by (destruct e; simpl in *; [exact (proj1 IHe)|exact I]).
+    split; [apply impl_foreach; auto|apply implT_nt; [apply impl_foreach; auto|]].
+    destruct e as [e|]; nt_comp.
+  - destruct IHb. split; [apply impl_label; auto|apply implT_nt; [apply impl_label; auto|nt_comp]].
+  - split; [apply impl_break|apply implT_nt; [apply impl_break|nt_comp]].
+  - destruct IHs, IHb. split; [apply impl_bind; auto|apply implT_bind; auto].
+  - split; [apply impl_var|apply implT_nt; [apply impl_var|nt_comp]].
+  - split; [apply impl_call0|apply implT_nt; [apply impl_call0|nt_comp]].
+  - destruct IHa, IHb. split; [apply impl_binop; auto|apply implT_nt; [apply impl_binop; auto|nt_comp]].
+  - destruct IHrest. split; [apply impl_def; auto|apply implT_def; auto].
+  - assert (Ia : Forall (fun a => Impl a) args) by (eapply Forall_impl; [|exact IHargs]; intros a [H _]; exact H).
+    split; [apply impl_callf; auto|apply implT_callf; auto].
 Qed.
 
 End C.
 
-(* every segment implements the denotation, for every fuel *)
-Theorem impl_all_fu : forall nt code fu q, Lemmas.Impl nt code fu q.
+(* every segment implements the denotation, for every fuel, in the ordinary and in the tail mode *)
+Theorem impl_all_fu : forall nt code tco fu q, Lemmas.Impl nt code tco fu q /\ Lemmas.ImplT nt code tco fu q.
 Proof.
-  intros nt code fu. induction fu as [fu IH] using lt_wf_ind. intros q. apply impl_all. exact IH.
+  intros nt code tco fu. induction fu as [fu IH] using lt_wf_ind. intros q.
+  apply (impl_all nt code tco fu (fun m Hm q' => proj1 (IH m Hm q')) (fun m Hm q' => proj2 (IH m Hm q'))).
 Qed.
 
 (* ---- whole programs ---- *)
@@ -3273,12 +4050,12 @@ End RunG.
 
 (* for every fuel on which the denotation terminates, the machine terminates with the same observation; when the
    denotation runs out of fuel fu, the machine is still running after fu + 1 steps *)
-Lemma compile_raw_both : forall q code, compile_raw q = Some code ->
+Lemma compile_raw_both : forall tco q code, compile_raw_g tco q = Some code ->
   forall fu v, (exists fuel, run_is (den nt fu q [] v) (run nt code fuel (init code v))) /\
-               (snd (den nt fu q [] v) = Some XFuel -> forall f, f <= S fu -> snd (run nt code f (init code v)) = OutOfFuel).
+               (tco = false -> snd (den nt fu q [] v) = Some XFuel -> forall f, f <= S fu -> snd (run nt code f (init code v)) = OutOfFuel).
 Proof.
-  intros q code Hc fu v. unfold compile_raw in Hc.
-  destruct (comp q ce_empty mainscope 1 0 2) as [[[c nv] sn']|] eqn:Ec; [|discriminate]. inversion Hc; subst code. clear Hc.
+  intros tco q code Hc fu v. unfold compile_raw_g in Hc.
+  destruct (compg tco q ce_empty None mainscope 1 0 2) as [[[c nv] sn']|] eqn:Ec; [|discriminate]. inversion Hc; subst code. clear Hc.
   set (code := Iscope mainscope nv 0 :: c ++ [Iret]).
   set (rpc := length code - 1).
   assert (Hlen : length code = S (S (length c))) by (unfold code; simpl; rewrite app_length; simpl; lia).
@@ -3296,23 +4073,23 @@ Proof.
       with (N [] 0 [SV v] [] [] 0 0 {| ctr := 0; creg := (Some rpc, @nil frame) |}).
     rewrite (st_scope nt code [] 0 mainscope nv 0 _ _ _ _ _ _ rpc []); [reflexivity|reflexivity|reflexivity]. }
   assert (Hfr : frameOK sc0 mainscope 0) by (exists rpc, 0, [], [], []; reflexivity).
-  pose proof (impl_all_fu nt code fu q sc0 mainscope 0 Hfr ce_empty 1 0 2 c nv sn' Ec Hat [] v [] [] vs0 0 0 (0 + nv) (0 + nv) g1
+  pose proof (proj1 (impl_all_fu nt code tco fu q) sc0 mainscope 0 Hfr ce_empty 1 0 2 c nv sn' Ec Hat [] v [] [] vs0 0 0 (0 + nv) (0 + nv) g1
                 (fun _ => True) (fun _ => True) (fun _ _ _ => True)) as HI.
   cbv zeta in HI.
   set (c0 := ctx_of sc0 (1 + length c) [] [] (0 + 0) (0 + nv) (0 + nv) (0 + nv) (fun _ => True) (fun _ => True) ce_empty 0 (ctr g1)) in HI.
-  assert (HG : Gen.G2 nt code c0 (fst (den nt fu q [] v)) (Tend nt code fu c0 (snd (den nt fu q [] v)) (fun _ _ _ => True))
-                 (Tend nt code fu c0 (snd (den nt fu q [] v)) (fun _ _ _ => True)) (N sc0 1 [SV v] [] vs0 0 (0 + nv) g1)).
+  assert (HG : Gen.G2 nt code c0 (fst (den nt fu q [] v)) (Tend nt code (lbf tco fu) c0 (snd (den nt fu q [] v)) (fun _ _ _ => True))
+                 (Tend nt code (lbf tco fu) c0 (snd (den nt fu q [] v)) (fun _ _ _ => True)) (N sc0 1 [SV v] [] vs0 0 (0 + nv) g1)).
   { apply HI; auto.
     - split; [constructor|split; [intros a k Hk; simpl in Hk; discriminate|intros i []]].
     - unfold vs0. apply grow_len.
     - split; auto. }
   split.
-  2:{ intros EF f Hf.
+  2:{ intros Etco EF f Hf. subst tco. rewrite lbf_false in HG.
       destruct (run_G_fuel code rpc c0 (fun _ _ _ => True) (snd (den nt fu q [] v)) mainscope 0 0 [] fu eq_refl Hret eq_refl
                   ltac:(simpl; lia) eq_refl eq_refl EF _ _ HG) as (s' & Rs & Hc).
       apply (reach_nohalt code (init code v) s' (reach_next _ _ _ _ E0 Rs) (S fu)); [|exact Hf].
       simpl in Hc. simpl. lia. }
-  destruct (run_G code rpc c0 (fun _ _ _ => True) (snd (den nt fu q [] v)) mainscope 0 0 [] fu eq_refl Hret eq_refl
+  destruct (run_G code rpc c0 (fun _ _ _ => True) (snd (den nt fu q [] v)) mainscope 0 0 [] (lbf tco fu) eq_refl Hret eq_refl
               ltac:(simpl; lia) eq_refl eq_refl eq_refl _ _ HG) as (f & Hf).
   exists (S f).
   change (run nt code (S f) (init code v)) with
@@ -3323,13 +4100,31 @@ Proof.
   rewrite E0. destruct (den nt fu q [] v) as [ws fin]. exact Hf.
 Qed.
 
+(* with or without optimizeTailRec *)
+Theorem compile_raw_g_correct : forall tco q code, compile_raw_g tco q = Some code ->
+  forall fu v, exists fuel, run_is (den nt fu q [] v) (run nt code fuel (init code v)).
+Proof. intros tco q code Hc fu v. exact (proj1 (compile_raw_both tco q code Hc fu v)). Qed.
+
 Theorem compile_raw_correct : forall q code, compile_raw q = Some code ->
   forall fu v, exists fuel, run_is (den nt fu q [] v) (run nt code fuel (init code v)).
-Proof. intros q code Hc fu v. exact (proj1 (compile_raw_both q code Hc fu v)). Qed.
+Proof. intros q code Hc fu v. exact (compile_raw_g_correct false q code Hc fu v). Qed.
+
+(* optimizeTailRec is sound: whenever the denotation terminates, the code compiled with and without the pass have
+   the same observation (the one of the denotation) *)
+Theorem tailrec_sound : forall q c c', compile_raw_g false q = Some c -> compile_raw_g true q = Some c' ->
+  forall fu v, snd (den nt fu q [] v) <> Some XFuel ->
+  exists f f' o, run nt c f (init c v) = o /\ run nt c' f' (init c' v) = o /\ run_is (den nt fu q [] v) o.
+Proof.
+  intros q c c' Hc Hc' fu v Hnf.
+  destruct (compile_raw_g_correct false q c Hc fu v) as (f & Hf).
+  destruct (compile_raw_g_correct true q c' Hc' fu v) as (f' & Hf').
+  exists f, f', (run nt c f (init c v)). split; [reflexivity|]. split; [|exact Hf].
+  unfold run_is in *. destruct (snd (den nt fu q [] v)) as [[x|l|]|]; try contradiction; try congruence.
+Qed.
 
 Theorem compile_raw_fuel : forall q code, compile_raw q = Some code ->
   forall fu v, snd (den nt fu q [] v) = Some XFuel -> forall f, f <= S fu -> snd (run nt code f (init code v)) = OutOfFuel.
-Proof. intros q code Hc fu v. exact (proj2 (compile_raw_both q code Hc fu v)). Qed.
+Proof. intros q code Hc fu v. exact (proj2 (compile_raw_both false q code Hc fu v) eq_refl). Qed.
 
 (* the converse: whenever the machine ends (with any ending other than running out of its own fuel), the denotation
    terminates on that much fuel, with the same observation; in particular the machine never gets stuck *)
